@@ -107,56 +107,172 @@ Proof.
   assert (z2 = z') by congruence. subst. exact Hi2.
 Qed.
 
-(* an optional whitespace token (the lexer merges adjacent whitespace, so there is at most one) *)
-Definition ws_t := option (list Z).
-Definition optws (o : ws_t) : list tok := match o with Some b => [(TWhitespace, b)] | None => [] end.
-Definition isws (o : ws_t) : bool := match o with Some _ => true | None => false end.
+(* a gap between two tokens of the grammar: whitespace and comment tokens (true = comment) *)
+Definition ws_t := list (bool * list Z).
+Definition gtok (x : bool * list Z) : tok := (if fst x then TComment else TWhitespace, snd x).
+Definition optws (o : ws_t) : list tok := map gtok o.
+Definition isws (o : ws_t) : bool := existsb (fun x => negb (fst x)) o.       (* it contains whitespace *)
+Definition iscm (o : ws_t) : bool := existsb (fun x => fst x) o.              (* it contains a comment *)
+Definition issp (o : ws_t) : bool := isws o || iscm o.                        (* it is not empty *)
 
-(* popToken skips the whitespace and remembers it in prevWS *)
-Lemma pop_token_ows F allow p o t b ts : css_inv (pl p) -> keepws p = false ->
-  lexes (pl p) (optws o ++ (t, b) :: ts) -> plain_tok t = true -> (1 <= F)%nat ->
-  exists z', pop_token F allow p = POk (t, b, relex p z' (isws o) false) /\ lexes z' ts /\ css_inv z'.
+(* enough fuel for the loop of popToken: one unit per token that is left *)
+Definition fuel_ok (F : nat) (z : lx) : Prop := (Z.to_nat (lx_len z - lpos z) < F)%nat.
+Definition cinv (F : nat) (z : lx) : Prop := css_inv z /\ fuel_ok F z.
+
+Lemma cinv_next F z t b z' : cinv F z -> css_next z = Some (t, b, z') -> is_err t = false ->
+  cinv F z' /\ (Z.to_nat (lx_len z' - lpos z') < Z.to_nat (lx_len z - lpos z))%nat.
 Proof.
-  intros Hi Hkw Hl Hp HF. destruct o as [wb|]; cbn [optws app isws] in *.
-  - destruct (lexes_cons _ _ _ _ Hl) as (z1 & Hn1 & Hl1 & _).
-    destruct (lexes_cons _ _ _ _ Hl1) as (z2 & Hn2 & Hl2 & _).
-    exists z2. split; [|split; [exact Hl2|eapply css_inv_next; [|exact Hn2]; eapply css_inv_next; eassumption]].
-    unfold pop_token, lex_next. cbn [set_prevcomment set_prevws pl]. rewrite Hn1. cbn [pbind fst snd].
-    destruct F as [|f]; [lia|]. rewrite pop_loop_eq. cbn [set_pl set_prevcomment set_prevws keepws]. rewrite Hkw.
-    change (is_t TWhitespace TWhitespace) with true. change (is_t TWhitespace TComment) with false. cbn [negb andb orb].
-    unfold lex_next. cbn [set_pl set_prevcomment set_prevws pl]. rewrite Hn2. cbn [pbind fst snd]. rewrite pop_loop_eq.
-    unfold plain_tok in Hp. apply andb_true_iff in Hp. destruct Hp as [H1 H2].
-    apply negb_true_iff in H1. apply negb_true_iff in H2. rewrite H1, H2. rewrite andb_false_r. cbn [orb].
-    destruct p; reflexivity.
-  - destruct (pop_token_plain F allow p t b ts Hl Hp) as (z' & Hpop & Hl' & Hn).
-    exists z'. split; [exact Hpop|]. split; [exact Hl'|]. eapply css_inv_next; eassumption.
+  intros (Hi & Hf) Hn He. destruct (css_next_step z Hi) as [(_ & Hn')|(ty & b' & z2 & Hn' & _ & Hi2 & Hbuf & Hp & _)]; rewrite Hn in Hn'.
+  - assert (t = TError) by congruence. subst. discriminate.
+  - assert (z2 = z') by congruence. subst z2. assert (Hlen : lx_len z' = lx_len z) by (unfold lx_len; rewrite Hbuf; reflexivity).
+    split; [split; [exact Hi2|]|]; unfold fuel_ok in *; rewrite Hlen; lia.
 Qed.
 
-Lemma pop_token_eof_ows F allow p o : keepws p = false -> lexes (pl p) (optws o) -> (1 <= F)%nat ->
-  exists b z', pop_token F allow p = POk (TError, b, relex p z' (isws o) false).
+(* comments are handed out only by popToken(true) at the top level; everywhere else they are skipped *)
+Definition cm_out (allow : bool) (p : parser) : bool := allow && (len (pst p) =? 1).
+
+(* lex one token, then the loop of popToken *)
+Definition pop_from (f : nat) (allow : bool) (p : parser) : pres (ttype * list Z * parser) :=
+  r <-- lex_next p ;; pop_loop f allow (snd r) (fst (fst r)) (snd (fst r)).
+
+Lemma pop_from_gap F allow t b ts : forall g f p w c,
+  css_inv (pl p) -> (Z.to_nat (lx_len (pl p) - lpos (pl p)) <= f)%nat -> fuel_ok F (pl p) ->
+  prevws p = w -> prevcomment p = c -> lexes (pl p) (optws g ++ (t, b) :: ts) ->
+  (isws g = true -> keepws p = false) -> (iscm g = true -> cm_out allow p = false) ->
+  negb (keepws p) && is_t t TWhitespace = false -> (is_t t TComment = true -> cm_out allow p = true) ->
+  exists z', pop_from f allow p = POk (t, b, relex p z' (w || isws g) (c || iscm g || is_t t TComment)) /\
+    lexes z' ts /\ cinv F z'.
 Proof.
-  intros Hkw Hl HF. destruct o as [wb|]; cbn [optws isws] in *.
-  - destruct (lexes_cons _ _ _ _ Hl) as (z1 & Hn1 & Hl1 & _).
-    destruct (lexes_nil _ Hl1) as (b & z2 & Hn2). exists b, z2.
-    unfold pop_token, lex_next. cbn [set_prevcomment set_prevws pl]. rewrite Hn1. cbn [pbind fst snd].
-    destruct F as [|f]; [lia|]. rewrite pop_loop_eq. cbn [set_pl set_prevcomment set_prevws keepws]. rewrite Hkw.
-    change (is_t TWhitespace TWhitespace) with true. change (is_t TWhitespace TComment) with false. cbn [negb andb orb].
-    unfold lex_next. cbn [set_pl set_prevcomment set_prevws pl]. rewrite Hn2. cbn [pbind fst snd]. rewrite pop_loop_eq.
-    change (is_t TError TWhitespace) with false. change (is_t TError TComment) with false. rewrite andb_false_r. cbn [orb].
-    destruct p; reflexivity.
-  - apply pop_token_eof. exact Hl.
+  induction g as [|[cx bx] g IH]; intros f p w c Hi Hf HF Hw Hc Hl Hsk Hcm Hrw Hrc; cbn [optws map app] in Hl.
+  - destruct (lexes_cons _ _ _ _ Hl) as (z' & Hn & Hl' & He).
+    destruct (cinv_next F _ _ _ _ (conj Hi HF) Hn He) as (Hi' & Hlt).
+    exists z'. split; [|split; assumption]. unfold pop_from, lex_next. rewrite Hn. cbn [pbind fst snd]. rewrite pop_loop_eq.
+    cbn [set_pl keepws]. rewrite Hrw. cbn [orb isws iscm existsb]. rewrite !orb_false_r.
+    destruct (is_t t TComment) eqn:Et.
+    + assert (Hco : cm_out allow p = true) by (apply Hrc; reflexivity). unfold cm_out in Hco.
+      apply is_t_eq in Et. subst t. cbn [orb]. destruct f as [|f']; [lia|].
+      change (is_t TComment TComment) with true. change (is_t TComment TWhitespace) with false. cbn [andb set_pl pst]. rewrite Hco.
+      rewrite orb_true_r. subst w c. destruct p; reflexivity.
+    + cbn [orb]. rewrite orb_false_r. subst w c. destruct p; reflexivity.
+  - destruct (lexes_cons _ _ _ _ Hl) as (z1 & Hn & Hl1 & He).
+    destruct (cinv_next F _ _ _ _ (conj Hi HF) Hn He) as ((Hi1 & HF1) & Hlt).
+    unfold pop_from, lex_next. rewrite Hn. cbn [pbind fst snd gtok]. rewrite pop_loop_eq. cbn [set_pl keepws].
+    destruct f as [|f']; [lia|].
+    destruct cx; cbn [fst snd].
+    + (* a comment *)
+      change (is_t TComment TWhitespace) with false. change (is_t TComment TComment) with true. rewrite andb_false_r. cbn [orb andb].
+      assert (Hco : cm_out allow p = false) by (apply Hcm; reflexivity). unfold cm_out in Hco. cbn [set_pl pst]. rewrite Hco.
+      set (p1 := set_prevcomment (set_pl p z1) true).
+      assert (A2 : (Z.to_nat (lx_len (pl p1) - lpos (pl p1)) <= f')%nat) by (change (pl p1) with z1; lia).
+      assert (A4 : prevws p1 = w) by exact Hw.
+      assert (A7 : isws g = true -> keepws p1 = false) by (intros H; apply Hsk; exact H).
+      assert (A8 : iscm g = true -> cm_out allow p1 = false) by (intros _; unfold cm_out; exact Hco).
+      destruct (IH f' p1 w true Hi1 A2 HF1 A4 eq_refl Hl1 A7 A8 Hrw Hrc) as (z' & Hrun & Hl' & Hi').
+      exists z'. split; [|split; assumption]. fold (pop_from f' allow p1). rewrite Hrun.
+      cbn [isws iscm existsb fst negb orb]. rewrite !orb_true_r. cbn [orb]. destruct p; reflexivity.
+    + (* whitespace *)
+      assert (Hk : keepws p = false) by (apply Hsk; reflexivity). rewrite Hk.
+      change (is_t TWhitespace TWhitespace) with true. change (is_t TWhitespace TComment) with false. cbn [negb andb orb].
+      set (p1 := set_prevws (set_pl p z1) true).
+      assert (A2 : (Z.to_nat (lx_len (pl p1) - lpos (pl p1)) <= f')%nat) by (change (pl p1) with z1; lia).
+      assert (A5 : prevcomment p1 = c) by exact Hc.
+      assert (A7 : isws g = true -> keepws p1 = false) by (intros _; exact Hk).
+      assert (A8 : iscm g = true -> cm_out allow p1 = false) by (intros H; apply Hcm; exact H).
+      destruct (IH f' p1 true c Hi1 A2 HF1 eq_refl A5 Hl1 A7 A8 Hrw Hrc) as (z' & Hrun & Hl' & Hi').
+      exists z'. split; [|split; assumption]. fold (pop_from f' allow p1). rewrite Hrun.
+      cbn [isws iscm existsb fst negb orb]. rewrite !orb_true_r. cbn [orb]. destruct p; reflexivity.
 Qed.
 
-Lemma next_fuel_pos p : css_inv (pl p) -> (1 <= next_fuel p)%nat.
-Proof. intros _. unfold next_fuel. lia. Qed.
+Lemma lexes_fuel F z L : cinv F z -> lexes z L -> (Z.to_nat (lx_len z - lpos z) <= F)%nat.
+Proof. intros (_ & HF) _. unfold fuel_ok in HF. lia. Qed.
 
-Ltac pop_tac F allow q Hiq Hkq Hl Hpl HF z Hpop Hl' Hi' :=
-  lazymatch type of Hl with
-  | lexes _ ((TWhitespace, ?wb) :: (?t, ?b) :: ?ts) =>
-      destruct (pop_token_ows F allow q (Some wb) t b ts Hiq Hkq Hl Hpl HF) as (z & Hpop & Hl' & Hi')
-  | lexes _ ((?t, ?b) :: ?ts) =>
-      destruct (pop_token_ows F allow q None t b ts Hiq Hkq Hl Hpl HF) as (z & Hpop & Hl' & Hi')
-  end; cbn [isws] in Hpop.
+(* popToken on a gap followed by a token that it hands out *)
+Lemma pop_token_gap F allow p g t b ts : cinv F (pl p) -> lexes (pl p) (optws g ++ (t, b) :: ts) ->
+  (isws g = true -> keepws p = false) -> (iscm g = true -> cm_out allow p = false) ->
+  negb (keepws p) && is_t t TWhitespace = false -> (is_t t TComment = true -> cm_out allow p = true) ->
+  exists z', pop_token F allow p = POk (t, b, relex p z' (isws g) (iscm g || is_t t TComment)) /\ lexes z' ts /\ cinv F z'.
+Proof.
+  intros (Hi & HF) Hl Hsk Hcm Hrw Hrc.
+  destruct (pop_from_gap F allow t b ts g F (set_prevcomment (set_prevws p false) false) false false) as (z' & Hrun & Hl' & Hi');
+    try assumption; try reflexivity.
+  - cbn [set_prevcomment set_prevws pl]. unfold fuel_ok in HF. lia.
+  - exists z'. split; [|split; assumption]. unfold pop_token. fold (pop_from F allow (set_prevcomment (set_prevws p false) false)).
+    rewrite Hrun. cbn [orb]. destruct p; reflexivity.
+Qed.
+
+(* ... the usual case: whitespace is skipped, the token is neither whitespace nor a comment *)
+Lemma pop_token_ows F allow p o t b ts : cinv F (pl p) -> keepws p = false ->
+  lexes (pl p) (optws o ++ (t, b) :: ts) -> plain_tok t = true -> (iscm o = true -> cm_out allow p = false) ->
+  exists z', pop_token F allow p = POk (t, b, relex p z' (isws o) (iscm o)) /\ lexes z' ts /\ cinv F z'.
+Proof.
+  intros Hi Hkw Hl Hp Hcm. unfold plain_tok in Hp. apply andb_true_iff in Hp. destruct Hp as [H1 H2].
+  apply negb_true_iff in H1. apply negb_true_iff in H2.
+  destruct (pop_token_gap F allow p o t b ts Hi Hl (fun _ => Hkw) Hcm) as (z' & Hpop & Hl' & Hi').
+  - rewrite H1. apply andb_false_r.
+  - rewrite H2. discriminate.
+  - exists z'. rewrite H2, orb_false_r in Hpop. auto.
+Qed.
+
+Lemma pop_from_eof F allow : forall g f p w c,
+  css_inv (pl p) -> (Z.to_nat (lx_len (pl p) - lpos (pl p)) <= f)%nat -> fuel_ok F (pl p) ->
+  prevws p = w -> prevcomment p = c -> lexes (pl p) (optws g) -> keepws p = false -> (iscm g = true -> cm_out allow p = false) ->
+  exists b z', pop_from f allow p = POk (TError, b, relex p z' (w || isws g) (c || iscm g)).
+Proof.
+  induction g as [|[cx bx] g IH]; intros f p w c Hi Hf HF Hw Hc Hl Hk Hcm; cbn [optws map] in Hl.
+  - destruct (lexes_nil _ Hl) as (b & z' & Hn). exists b, z'. unfold pop_from, lex_next. rewrite Hn. cbn [pbind fst snd].
+    rewrite pop_loop_eq. change (is_t TError TWhitespace) with false. change (is_t TError TComment) with false. rewrite andb_false_r.
+    cbn [orb isws iscm existsb]. rewrite !orb_false_r. subst w c. destruct p; reflexivity.
+  - destruct (lexes_cons _ _ _ _ Hl) as (z1 & Hn & Hl1 & He).
+    destruct (cinv_next F _ _ _ _ (conj Hi HF) Hn He) as ((Hi1 & HF1) & Hlt).
+    unfold pop_from, lex_next. rewrite Hn. cbn [pbind fst snd gtok]. rewrite pop_loop_eq. cbn [set_pl keepws]. rewrite Hk.
+    destruct f as [|f']; [lia|].
+    destruct cx; cbn [fst snd].
+    + change (is_t TComment TWhitespace) with false. change (is_t TComment TComment) with true. cbn [negb orb andb].
+      assert (Hco : cm_out allow p = false) by (apply Hcm; reflexivity). unfold cm_out in Hco. cbn [set_pl pst]. rewrite Hco.
+      set (p1 := set_prevcomment (set_pl p z1) true).
+      assert (A2 : (Z.to_nat (lx_len (pl p1) - lpos (pl p1)) <= f')%nat) by (change (pl p1) with z1; lia).
+      assert (A4 : prevws p1 = w) by exact Hw.
+      assert (A8 : iscm g = true -> cm_out allow p1 = false) by (intros _; unfold cm_out; exact Hco).
+      destruct (IH f' p1 w true Hi1 A2 HF1 A4 eq_refl Hl1 Hk A8) as (b & z' & Hrun).
+      exists b, z'. fold (pop_from f' allow p1). rewrite Hrun.
+      cbn [isws iscm existsb fst negb orb]. rewrite !orb_true_r. destruct p; reflexivity.
+    + change (is_t TWhitespace TWhitespace) with true. change (is_t TWhitespace TComment) with false. cbn [negb andb orb].
+      set (p1 := set_prevws (set_pl p z1) true).
+      assert (A2 : (Z.to_nat (lx_len (pl p1) - lpos (pl p1)) <= f')%nat) by (change (pl p1) with z1; lia).
+      assert (A5 : prevcomment p1 = c) by exact Hc.
+      assert (A8 : iscm g = true -> cm_out allow p1 = false) by (intros H; apply Hcm; exact H).
+      destruct (IH f' p1 true c Hi1 A2 HF1 eq_refl A5 Hl1 Hk A8) as (b & z' & Hrun).
+      exists b, z'. fold (pop_from f' allow p1). rewrite Hrun.
+      cbn [isws iscm existsb fst negb orb]. rewrite !orb_true_r. destruct p; reflexivity.
+Qed.
+
+Lemma pop_token_eof_ows F allow p o : cinv F (pl p) -> keepws p = false -> lexes (pl p) (optws o) ->
+  (iscm o = true -> cm_out allow p = false) ->
+  exists b z', pop_token F allow p = POk (TError, b, relex p z' (isws o) (iscm o)).
+Proof.
+  intros (Hi & HF) Hkw Hl Hcm.
+  destruct (pop_from_eof F allow o F (set_prevcomment (set_prevws p false) false) false false) as (b & z' & Hrun);
+    try assumption; try reflexivity.
+  - cbn [set_prevcomment set_prevws pl]. unfold fuel_ok in HF. lia.
+  - exists b, z'. unfold pop_token. fold (pop_from F allow (set_prevcomment (set_prevws p false) false)). rewrite Hrun.
+    cbn [orb]. destruct p; reflexivity.
+Qed.
+
+Lemma next_fuel_ok p : css_inv (pl p) -> cinv (next_fuel p) (pl p).
+Proof. intros H. split; [exact H|]. unfold fuel_ok, next_fuel. lia. Qed.
+
+(* a gap with a comment can only be skipped inside a block: at the top level popToken(true) hands the comment out *)
+Definition gap_at (st : list pstate) (o : ws_t) : Prop := iscm o = true -> len st <> 1.
+Lemma cm_out_no st o allow q : gap_at st o -> pst q = st -> iscm o = true -> cm_out allow q = false.
+Proof. intros H E Hc. unfold cm_out. rewrite E. destruct allow; [|reflexivity]. cbn [andb]. apply Z.eqb_neq. apply H. exact Hc. Qed.
+Lemma gap_at_cons s s2 st o : gap_at (s :: s2 :: st) o.
+Proof. intros _. rewrite !len_cons. pose proof (len_nonneg st). lia. Qed.
+
+Lemma lexes_skip : forall g z L, css_inv z -> lexes z (optws g ++ L) -> exists z', css_inv z' /\ lexes z' L.
+Proof.
+  induction g as [|x g IH]; intros z L Hi Hl; cbn [optws map app] in Hl; [eauto|].
+  destruct (lexes_cons _ _ _ _ Hl) as (z1 & Hn & Hl1 & _). apply (IH z1 L); [eapply css_inv_next; eassumption|exact Hl1].
+Qed.
 
 Lemma next_fuel_lexes p t b ts : css_inv (pl p) -> lexes (pl p) ((t, b) :: ts) -> exists k, next_fuel p = S (S (S k)).
 Proof.
@@ -164,32 +280,13 @@ Proof.
   destruct (next_fuel_S p _ _ _ Hi Hn He) as (k & HF & _). eauto.
 Qed.
 
-(* the end of a ruleset *)
-Lemma step_end p st0 o rb ts : wf_state p (SQualifiedRuleDeclarationList :: st0) (optws o ++ (TRightBrace, rb) :: ts) ->
-  exists p', parse_next p = POk (GEndRuleset, p') /\ ptt p' = TRightBrace /\ pdata p' = rb /\ perr p' = false /\
-    wf_state p' st0 ts.
-Proof.
-  intros (Hi & Hl & Hst & Hlv & Hpe & Hkw & Hsty).
-  unfold parse_next. cbv zeta. change (prevend (set_buf (set_err p false) [])) with (prevend p). rewrite Hpe.
-  destruct (pop_token_ows (next_fuel p) true (set_buf (set_err p false) []) o TRightBrace rb ts Hi Hkw Hl eq_refl (next_fuel_pos p Hi))
-    as (z' & Hpop & Hl' & Hi').
-  rewrite Hpop. cbn [pbind fst snd].
-  cbn [set_tok relex set_err pst set_buf]. rewrite Hst.
-  unfold parse_qualified_rule_declaration_list. rewrite skip_semicolons_none by (cbn; discriminate). cbn [pbind]. cbv zeta.
-  cbn [set_tok ptt]. evis. cbn [orb]. unfold pop_st. cbn [set_tok relex set_err pst set_buf]. rewrite Hst. cbn [pbind].
-  eexists. split; [reflexivity|]. cbn [set_st set_tok relex set_err ptt pdata perr set_buf].
-  split; [reflexivity|]. split; [reflexivity|]. split; [reflexivity|].
-  unfold wf_state. cbn [set_st set_tok relex set_err pl pst plevel prevend keepws isstyle set_buf].
-  split; [exact Hi'|]. split; [exact Hl'|]. auto.
-Qed.
-
 (* the end of the input at the top level *)
-Lemma step_eof p o : wf_state p [SStylesheet] (optws o) ->
+Lemma step_eof p o : wf_state p [SStylesheet] (optws o) -> iscm o = false ->
   exists p', parse_next p = POk (GError, p') /\ perr p' = false /\ ptt p' = TError.
 Proof.
-  intros (Hi & Hl & Hst & Hlv & Hpe & Hkw & Hsty).
+  intros (Hi & Hl & Hst & Hlv & Hpe & Hkw & Hsty) Hnc.
   unfold parse_next. cbv zeta. change (prevend (set_buf (set_err p false) [])) with (prevend p). rewrite Hpe.
-  destruct (pop_token_eof_ows (next_fuel p) true (set_buf (set_err p false) []) o Hkw Hl (next_fuel_pos p Hi)) as (b & z' & Hpop).
+  destruct (pop_token_eof_ows (next_fuel p) true (set_buf (set_err p false) []) o (next_fuel_ok p Hi) Hkw Hl ltac:(intros H; congruence)) as (b & z' & Hpop).
   rewrite Hpop. cbn [pbind fst snd].
   cbn [set_tok relex set_err pst set_buf]. rewrite Hst. unfold parse_stylesheet. cbn [set_tok ptt]. evis. cbn [orb].
   eexists. split; [reflexivity|]. split; reflexivity.
@@ -226,7 +323,7 @@ Proof. reflexivity. Qed.
 Definition sp : tok := (TWhitespace, [32]).
 Definition wtok := (ws_t * tok)%type.                      (* a token and the whitespace before it *)
 Definition src_toks (l : list wtok) : list tok := flat_map (fun x => optws (fst x) ++ [snd x]) l.
-Definition buf_toks (l : list wtok) : list tok := flat_map (fun x => (if isws (fst x) then [sp] else []) ++ [snd x]) l.
+Definition buf_toks (l : list wtok) : list tok := flat_map (fun x => (if issp (fst x) then [sp] else []) ++ [snd x]) l.
 
 (* the bracket level after a token, and the tokens a value or selector may contain at level lv: no whitespace or
    comment (they are the ws_t), no '{' '}' ';', and a closing bracket only inside an open one *)
@@ -255,8 +352,8 @@ Lemma adjust_level_f p t : pbuf (adjust_level p t) = pbuf p /\ prevws (adjust_le
 Proof. unfold adjust_level, tok_lv. destruct (opens t); [repeat split|]. destruct (closes t); repeat split. Qed.
 
 (* the parser after one more token (t, b) of a value: lexer at z', w = whitespace was skipped before the token *)
-Definition after_tok (p : parser) (z' : lx) (w : bool) (t : ttype) (b : list Z) : parser :=
-  push_buf (let q := adjust_level (relex p z' w false) t in if w then push_buf q TWhitespace [32] else q) t b.
+Definition after_tok (p : parser) (z' : lx) (o : ws_t) (t : ttype) (b : list Z) : parser :=
+  push_buf (let q := adjust_level (relex p z' (isws o) (iscm o)) t in if issp o then push_buf q TWhitespace [32] else q) t b.
 
 Definition rest_same (p p' : parser) : Prop :=
   keepws p' = keepws p /\ pst p' = pst p /\ ptt p' = ptt p /\ pdata p' = pdata p /\ perr p' = perr p /\
@@ -266,77 +363,77 @@ Lemma rest_same_trans p q r : rest_same p q -> rest_same q r -> rest_same p r.
 Proof. unfold rest_same. intros (A1 & A2 & A3 & A4 & A5 & A6 & A7) (B1 & B2 & B3 & B4 & B5 & B6 & B7). repeat split; congruence. Qed.
 
 Lemma after_tok_f p z' w t b : pl (after_tok p z' w t b) = z' /\
-  pbuf (after_tok p z' w t b) = pbuf p ++ (if w then [sp] else []) ++ [(t, b)] /\
+  pbuf (after_tok p z' w t b) = pbuf p ++ (if issp w then [sp] else []) ++ [(t, b)] /\
   plevel (after_tok p z' w t b) = tok_lv (plevel p) t /\ rest_same p (after_tok p z' w t b).
 Proof.
   unfold after_tok, adjust_level, tok_lv, rest_same, sp.
-  destruct w, (opens t), (closes t); cbn; rewrite <- ?app_assoc; repeat split.
+  destruct (issp w), (opens t), (closes t); cbn; rewrite <- ?app_assoc; repeat split.
 Qed.
 
 (* one iteration of the loop of parseDeclaration on a value token *)
-Lemma decl_iter f F p o t b ts : css_inv (pl p) -> keepws p = false -> (1 <= F)%nat ->
+Lemma decl_iter f F p o t b ts : cinv F (pl p) -> keepws p = false ->
   lexes (pl p) (optws o ++ (t, b) :: ts) -> vtok_ok (plevel p) t = true ->
   (exists B x, pbuf p = B ++ [x] /\ is_wstok x = false) ->
-  exists z', css_inv z' /\ lexes z' ts /\
-    declaration_loop (S f) F p = declaration_loop f F (after_tok p z' (isws o) t b).
+  exists z', cinv F z' /\ lexes z' ts /\
+    declaration_loop (S f) F p = declaration_loop f F (after_tok p z' o t b).
 Proof.
-  intros Hi Hkw HF Hl Hv (B & x & Hb & Hx).
+  intros Hi Hkw Hl Hv (B & x & Hb & Hx).
   destruct (vtok_ok_inv _ _ Hv) as (Hp & Herr & Hlb & Hrb & Hsemi & Hcl & _).
-  destruct (pop_token_ows F false p o t b ts Hi Hkw Hl Hp HF) as (z' & Hpop & Hl' & Hi').
+  destruct (pop_token_ows F false p o t b ts Hi Hkw Hl Hp (fun _ => eq_refl)) as (z' & Hpop & Hl' & Hi').
   exists z'. split; [exact Hi'|]. split; [exact Hl'|].
   rewrite declaration_loop_S, Hpop. cbn [pbind fst snd]. unfold ends_unit. rewrite Hsemi, Hrb, Herr, Hlb. cbn [orb andb].
-  assert (Hc0 : closes t && (plevel (relex p z' (isws o) false) =? 0) = false).
+  assert (Hc0 : closes t && (plevel (relex p z' (isws o) (iscm o)) =? 0) = false).
   { cbn [relex plevel]. destruct (closes t); [|reflexivity]. specialize (Hcl eq_refl). cbn [andb]. lia. }
   rewrite Hc0. cbv zeta.
-  destruct (adjust_level_f (relex p z' (isws o) false) t) as (F1 & F2 & F3 & _). rewrite F1, F2, F3.
-  cbn [relex pbuf prevws prevcomment]. rewrite Hb, rev_app_distr. cbn [rev app of_opt pbind]. rewrite Hx, orb_false_r.
+  destruct (adjust_level_f (relex p z' (isws o) (iscm o)) t) as (F1 & F2 & F3 & _). rewrite F1, F2, F3.
+  cbn [relex pbuf prevws prevcomment]. rewrite Hb, rev_app_distr. cbn [rev app of_opt pbind]. rewrite Hx.
   cbn [negb]. rewrite andb_true_r. reflexivity.
 Qed.
 
 Lemma src_toks_cons o tk r ts : src_toks ((o, tk) :: r) ++ ts = optws o ++ tk :: (src_toks r ++ ts).
 Proof. unfold src_toks. cbn [flat_map fst snd]. rewrite <- !app_assoc. reflexivity. Qed.
 
-Lemma buf_toks_cons o tk r : buf_toks ((o, tk) :: r) = (if isws o then [sp] else []) ++ tk :: buf_toks r.
+Lemma buf_toks_cons o tk r : buf_toks ((o, tk) :: r) = (if issp o then [sp] else []) ++ tk :: buf_toks r.
 Proof. unfold buf_toks. cbn [flat_map fst snd]. rewrite <- !app_assoc. reflexivity. Qed.
 
 (* ... and on all tokens of a value *)
-Lemma decl_values F ts : (1 <= F)%nat -> forall vl f p, css_inv (pl p) -> keepws p = false ->
+Lemma decl_values F ts : forall vl f p, cinv F (pl p) -> keepws p = false ->
   lexes (pl p) (src_toks vl ++ ts) -> toks_ok (plevel p) vl ->
   (exists B x, pbuf p = B ++ [x] /\ is_wstok x = false) ->
-  exists p', declaration_loop (length vl + f) F p = declaration_loop f F p' /\ css_inv (pl p') /\ lexes (pl p') ts /\
+  exists p', declaration_loop (length vl + f) F p = declaration_loop f F p' /\ cinv F (pl p') /\ lexes (pl p') ts /\
     pbuf p' = pbuf p ++ buf_toks vl /\ plevel p' = lv_after (plevel p) vl /\ rest_same p p'.
 Proof.
-  intros HF. induction vl as [|[o [t b]] vl IH]; intros f p Hi Hkw Hl Hok Hb.
+  induction vl as [|[o [t b]] vl IH]; intros f p Hi Hkw Hl Hok Hb.
   - exists p. cbn [length Nat.add src_toks buf_toks flat_map app lv_after] in *. rewrite app_nil_r.
     split; [reflexivity|]. split; [exact Hi|]. split; [exact Hl|]. split; [reflexivity|]. split; [reflexivity|].
     unfold rest_same. repeat split.
   - rewrite src_toks_cons in Hl. cbn [toks_ok fst snd] in Hok. destruct Hok as (Hv & Hok).
-    destruct (decl_iter (length vl + f) F p o t b _ Hi Hkw HF Hl Hv Hb) as (z' & Hi' & Hl' & Heq).
-    destruct (after_tok_f p z' (isws o) t b) as (G1 & G2 & G3 & G4).
-    set (p1 := after_tok p z' (isws o) t b) in *.
+    destruct (decl_iter (length vl + f) F p o t b _ Hi Hkw Hl Hv Hb) as (z' & Hi' & Hl' & Heq).
+    destruct (after_tok_f p z' o t b) as (G1 & G2 & G3 & G4).
+    set (p1 := after_tok p z' o t b) in *.
     destruct (vtok_ok_inv _ _ Hv) as (_ & _ & _ & _ & _ & _ & Hws).
     destruct (IH f p1) as (p' & Hrun & Hi2 & Hl2 & Hb2 & Hlv2 & Hs2).
     + rewrite G1. exact Hi'.
     + destruct G4 as (G4 & _). rewrite G4. exact Hkw.
     + rewrite G1. exact Hl'.
     + rewrite G3. exact Hok.
-    + exists (pbuf p ++ (if isws o then [sp] else [])), (t, b). split; [rewrite G2, app_assoc; reflexivity|exact Hws].
+    + exists (pbuf p ++ (if issp o then [sp] else [])), (t, b). split; [rewrite G2, app_assoc; reflexivity|exact Hws].
     + exists p'. cbn [length Nat.add]. rewrite Heq, Hrun. split; [reflexivity|]. split; [exact Hi2|]. split; [exact Hl2|].
       split; [rewrite Hb2, G2, buf_toks_cons, <- !app_assoc; reflexivity|]. split; [rewrite Hlv2, G3; reflexivity|].
       eapply rest_same_trans; eassumption.
 Qed.
 
 (* the ';' that ends the declaration *)
-Lemma decl_end f F p o tb ts b0 after c vals : css_inv (pl p) -> keepws p = false -> (1 <= F)%nat -> plevel p = 0 ->
+Lemma decl_end f F p o tb ts b0 after c vals : cinv F (pl p) -> keepws p = false -> plevel p = 0 ->
   term_ok tb -> lexes (pl p) (optws o ++ tb :: ts) -> pbuf p = b0 :: after -> drop_ws after = (TColon, c) :: vals ->
-  exists z', css_inv z' /\ lexes z' ts /\
+  exists z', cinv F z' /\ lexes z' ts /\
     declaration_loop (S f) F p =
-      POk (GDeclaration, set_prevend (set_tok (set_buf (relex p z' (isws o) false) (compact [] (drop_ws vals)))
+      POk (GDeclaration, set_prevend (set_tok (set_buf (relex p z' (isws o) (iscm o)) (compact [] (drop_ws vals)))
                                               (ptt p) (to_lower (pdata p))) (is_t (fst tb) TRightBrace)).
 Proof.
-  intros Hi Hkw HF Hlv Hterm Hl Hb Hd. destruct tb as [tt bb]. unfold term_ok in Hterm. cbn [fst] in *.
+  intros Hi Hkw Hlv Hterm Hl Hb Hd. destruct tb as [tt bb]. unfold term_ok in Hterm. cbn [fst] in *.
   assert (Hp : plain_tok tt = true) by (destruct Hterm as [->| ->]; reflexivity).
-  destruct (pop_token_ows F false p o tt bb ts Hi Hkw Hl Hp HF) as (z' & Hpop & Hl' & Hi').
+  destruct (pop_token_ows F false p o tt bb ts Hi Hkw Hl Hp (fun _ => eq_refl)) as (z' & Hpop & Hl' & Hi').
   exists z'. split; [exact Hi'|]. split; [exact Hl'|].
   rewrite declaration_loop_S, Hpop. cbn [pbind fst snd]. unfold ends_unit. cbn [relex plevel pbuf]. rewrite Hlv, Hb, Hd.
   destruct Hterm as [->| ->]; cbn [fst]; evis; cbn [Z.eqb orb andb]; reflexivity.
@@ -347,7 +444,7 @@ Qed.
 Fixpoint join (prev : tok) (l : list wtok) : list tok :=
   match l with
   | [] => []
-  | x :: r => (if isws (fst x) && negb (punct prev) && negb (punct (snd x)) then [sp] else []) ++ snd x :: join (snd x) r
+  | x :: r => (if issp (fst x) && negb (punct prev) && negb (punct (snd x)) then [sp] else []) ++ snd x :: join (snd x) r
   end.
 Definition expected_vals (vl : list wtok) : list tok :=
   match vl with x :: r => snd x :: join (snd x) r | [] => [] end.
@@ -365,7 +462,7 @@ Proof.
   - inversion Hr as [|? ? Hx Hr']; subst. cbn [snd] in Hx. rewrite buf_toks_cons. cbn [join fst snd].
     assert (Hnext : compact (t :: out) ((tt, bb) :: buf_toks r) = rev out ++ t :: (tt, bb) :: join (tt, bb) r).
     { cbn [compact]. rewrite Hx. rewrite (IH (tt, bb) (t :: out) Hx Hr'). cbn [rev]. rewrite <- app_assoc. reflexivity. }
-    destruct o as [wb|]; cbn [isws app andb]; [|exact Hnext].
+    destruct (issp o); cbn [app andb]; [|exact Hnext].
     rewrite compact_sp.
     destruct (punct t); cbn [negb andb app]; [exact Hnext|].
     destruct (punct (tt, bb)); cbn [negb app]; [exact Hnext|].
@@ -378,14 +475,14 @@ Proof.
   constructor; [|eapply IH; exact H]. destruct (vtok_ok_inv _ _ Hv) as (_ & _ & _ & _ & _ & _ & Hws). exact Hws.
 Qed.
 
-Lemma compact_expected vl lv : vl <> [] -> toks_ok lv vl -> compact [] (drop_ws (buf_toks vl)) = expected_vals vl.
+Lemma compact_expected vl lv : toks_ok lv vl -> compact [] (drop_ws (buf_toks vl)) = expected_vals vl.
 Proof.
-  intros Hne Hok. destruct vl as [|[o [t b]] r]; [congruence|].
+  intros Hok. destruct vl as [|[o [t b]] r]; [reflexivity|].
   pose proof (toks_ok_nonws _ _ Hok) as Hall. inversion Hall as [|? ? Hx Hr]; subst. cbn [snd] in Hx.
   rewrite buf_toks_cons. unfold expected_vals. cbn [snd].
   assert (Hc : compact [] ((t, b) :: buf_toks r) = (t, b) :: join (t, b) r).
   { cbn [compact]. rewrite Hx. rewrite (compact_join r (t, b) [] Hx Hr). reflexivity. }
-  destruct o; cbn [isws app drop_ws]; [change (is_wstok sp) with true; cbv beta iota; cbn [drop_ws]|]; rewrite Hx; exact Hc.
+  destruct (issp o); cbn [app drop_ws]; [change (is_wstok sp) with true; cbv beta iota; cbn [drop_ws]|]; rewrite Hx; exact Hc.
 Qed.
 
 (* the number of tokens left bounds the fuel *)
@@ -414,62 +511,65 @@ Definition combinator (b : list Z) : bool := one_of [44; 62; 43; 126] b.        
 Definition ia_next (ia : bool) (t : ttype) : bool :=
   if is_t t TLeftBracket then true else if is_t t TRightBracket then false else ia.
 Definition addws_sel (w sk ia : bool) (b : list Z) : bool := negb (combinator b) && w && negb sk && negb ia.
-Definition after_sel (p : parser) (z' : lx) (w : bool) (t : ttype) (b : list Z) (ia sk : bool) : parser :=
-  push_buf (let q := adjust_level (relex p z' w false) t in if addws_sel w sk ia b then push_buf q TWhitespace [32] else q) t b.
+Definition after_sel (p : parser) (z' : lx) (o : ws_t) (t : ttype) (b : list Z) (ia sk : bool) : parser :=
+  push_buf (let q := adjust_level (relex p z' (isws o) (iscm o)) t in
+            if addws_sel (isws o) sk ia b then push_buf q TWhitespace [32] else q) t b.
 
 (* the expected Values() of a selector: a single space exactly where the source has whitespace between two tokens
    neither of which is a combinator , > + ~ and that are not inside [ ]; sk = the previous token was a combinator
    (or there is none), ia = inside an attribute selector *)
-Fixpoint sel_buf (sk ia : bool) (l : list wtok) : list tok :=
+Fixpoint sel_buf (spf : ws_t -> bool) (sk ia : bool) (l : list wtok) : list tok :=
   match l with
   | [] => []
-  | x :: r => (if addws_sel (isws (fst x)) sk ia (snd (snd x)) then [sp] else []) ++ snd x ::
-              sel_buf (combinator (snd (snd x))) (ia_next ia (fst (snd x))) r
+  | x :: r => (if addws_sel (spf (fst x)) sk ia (snd (snd x)) then [sp] else []) ++ snd x ::
+              sel_buf spf (combinator (snd (snd x))) (ia_next ia (fst (snd x))) r
   end.
-Definition expected_sel (l : list wtok) : list tok := sel_buf true false l.
+(* spf = what counts as a separating gap: for a top-level selector only whitespace (a comment alone gives no space); for
+   the selector of a nested ruleset, which is collected by parseDeclaration, whitespace or a comment *)
+Definition expected_sel (nested : bool) (l : list wtok) : list tok := sel_buf (if nested then issp else isws) true false l.
 
 Lemma after_sel_f p z' w t b ia sk : pl (after_sel p z' w t b ia sk) = z' /\
-  pbuf (after_sel p z' w t b ia sk) = pbuf p ++ (if addws_sel w sk ia b then [sp] else []) ++ [(t, b)] /\
+  pbuf (after_sel p z' w t b ia sk) = pbuf p ++ (if addws_sel (isws w) sk ia b then [sp] else []) ++ [(t, b)] /\
   plevel (after_sel p z' w t b ia sk) = tok_lv (plevel p) t /\ rest_same p (after_sel p z' w t b ia sk).
 Proof.
   unfold after_sel, adjust_level, tok_lv, rest_same, sp.
-  destruct (addws_sel w sk ia b), (opens t), (closes t); cbn; rewrite <- ?app_assoc; repeat split.
+  destruct (addws_sel (isws w) sk ia b), (opens t), (closes t); cbn; rewrite <- ?app_assoc; repeat split.
 Qed.
 
 (* one iteration of the loop of parseQualifiedRule on a selector token *)
-Lemma qual_iter f F p o t b ts ia sk : css_inv (pl p) -> keepws p = false -> (1 <= F)%nat ->
+Lemma qual_iter f F p o t b ts ia sk : cinv F (pl p) -> keepws p = false ->
   lexes (pl p) (optws o ++ (t, b) :: ts) -> vtok_ok (plevel p) t = true ->
-  exists z', css_inv z' /\ lexes z' ts /\
+  exists z', cinv F z' /\ lexes z' ts /\
     qualified_loop (S f) F p false ia sk =
-    qualified_loop f F (after_sel p z' (isws o) t b ia sk) false (ia_next ia t) (combinator b).
+    qualified_loop f F (after_sel p z' o t b ia sk) false (ia_next ia t) (combinator b).
 Proof.
-  intros Hi Hkw HF Hl Hv.
+  intros Hi Hkw Hl Hv.
   destruct (vtok_ok_inv _ _ Hv) as (Hp & Herr & Hlb & Hrb & Hsemi & Hcl & _).
-  destruct (pop_token_ows F false p o t b ts Hi Hkw Hl Hp HF) as (z' & Hpop & Hl' & Hi').
+  destruct (pop_token_ows F false p o t b ts Hi Hkw Hl Hp (fun _ => eq_refl)) as (z' & Hpop & Hl' & Hi').
   exists z'. split; [exact Hi'|]. split; [exact Hl'|].
   cbn [qualified_loop]. rewrite Hpop. cbn [pbind fst snd]. rewrite Hlb, Herr. cbn [andb].
-  assert (Hc0 : closes t && (plevel (relex p z' (isws o) false) =? 0) = false).
+  assert (Hc0 : closes t && (plevel (relex p z' (isws o) (iscm o)) =? 0) = false).
   { cbn [relex plevel]. destruct (closes t); [|reflexivity]. specialize (Hcl eq_refl). cbn [andb]. lia. }
   rewrite Hc0. cbv zeta.
-  destruct (adjust_level_f (relex p z' (isws o) false) t) as (_ & F2 & _). rewrite F2. cbn [relex prevws].
+  destruct (adjust_level_f (relex p z' (isws o) (iscm o)) t) as (_ & F2 & _). rewrite F2. cbn [relex prevws].
   unfold after_sel, addws_sel, ia_next, combinator.
   destruct (one_of [44; 62; 43; 126] b), (isws o), sk, ia; reflexivity.
 Qed.
 
-Lemma qual_tokens F ts : (1 <= F)%nat -> forall sl f p ia sk, css_inv (pl p) -> keepws p = false ->
+Lemma qual_tokens F ts : forall sl f p ia sk, cinv F (pl p) -> keepws p = false ->
   lexes (pl p) (src_toks sl ++ ts) -> toks_ok (plevel p) sl ->
   exists p' ia' sk', qualified_loop (length sl + f) F p false ia sk = qualified_loop f F p' false ia' sk' /\
-    css_inv (pl p') /\ lexes (pl p') ts /\ pbuf p' = pbuf p ++ sel_buf sk ia sl /\
+    cinv F (pl p') /\ lexes (pl p') ts /\ pbuf p' = pbuf p ++ sel_buf isws sk ia sl /\
     plevel p' = lv_after (plevel p) sl /\ rest_same p p'.
 Proof.
-  intros HF. induction sl as [|[o [t b]] sl IH]; intros f p ia sk Hi Hkw Hl Hok.
+  induction sl as [|[o [t b]] sl IH]; intros f p ia sk Hi Hkw Hl Hok.
   - exists p, ia, sk. cbn [length Nat.add src_toks sel_buf flat_map app lv_after] in *. rewrite app_nil_r.
     split; [reflexivity|]. split; [exact Hi|]. split; [exact Hl|]. split; [reflexivity|]. split; [reflexivity|].
     unfold rest_same. repeat split.
   - rewrite src_toks_cons in Hl. cbn [toks_ok fst snd] in Hok. destruct Hok as (Hv & Hok).
-    destruct (qual_iter (length sl + f) F p o t b _ ia sk Hi Hkw HF Hl Hv) as (z' & Hi' & Hl' & Heq).
-    destruct (after_sel_f p z' (isws o) t b ia sk) as (G1 & G2 & G3 & G4).
-    set (p1 := after_sel p z' (isws o) t b ia sk) in *.
+    destruct (qual_iter (length sl + f) F p o t b _ ia sk Hi Hkw Hl Hv) as (z' & Hi' & Hl' & Heq).
+    destruct (after_sel_f p z' o t b ia sk) as (G1 & G2 & G3 & G4).
+    set (p1 := after_sel p z' o t b ia sk) in *.
     destruct (IH f p1 (ia_next ia t) (combinator b)) as (p' & ia' & sk' & Hrun & Hi2 & Hl2 & Hb2 & Hlv2 & Hs2).
     + rewrite G1. exact Hi'.
     + destruct G4 as (G4 & _). rewrite G4. exact Hkw.
@@ -505,13 +605,13 @@ Lemma after_first_f p : pl (after_first p) = pl p /\ pbuf (after_first p) = pbuf
 Proof. unfold after_first, adjust_level, tok_lv. destruct (opens (ptt p)), (closes (ptt p)); cbn; repeat split. Qed.
 
 (* the '{' that ends the selector *)
-Lemma qual_end f F p o lb ts ia sk : css_inv (pl p) -> keepws p = false -> (1 <= F)%nat -> plevel p = 0 ->
+Lemma qual_end f F p o lb ts ia sk : cinv F (pl p) -> keepws p = false -> plevel p = 0 ->
   lexes (pl p) (optws o ++ (TLeftBrace, lb) :: ts) ->
-  exists z', css_inv z' /\ lexes z' ts /\
-    qualified_loop (S f) F p false ia sk = POk (GBeginRuleset, push_st (relex p z' (isws o) false) SQualifiedRuleDeclarationList).
+  exists z', cinv F z' /\ lexes z' ts /\
+    qualified_loop (S f) F p false ia sk = POk (GBeginRuleset, push_st (relex p z' (isws o) (iscm o)) SQualifiedRuleDeclarationList).
 Proof.
-  intros Hi Hkw HF Hlv Hl.
-  destruct (pop_token_ows F false p o TLeftBrace lb ts Hi Hkw Hl eq_refl HF) as (z' & Hpop & Hl' & Hi').
+  intros Hi Hkw Hlv Hl.
+  destruct (pop_token_ows F false p o TLeftBrace lb ts Hi Hkw Hl eq_refl (fun _ => eq_refl)) as (z' & Hpop & Hl' & Hi').
   exists z'. split; [exact Hi'|]. split; [exact Hl'|].
   cbn [qualified_loop]. rewrite Hpop. cbn [pbind fst snd relex plevel]. rewrite Hlv. evis. reflexivity.
 Qed.
@@ -566,14 +666,14 @@ Proof.
 Qed.
 
 (* a ruleset: selector tokens, '{' *)
-Lemma step_begin p s st0 o1 t1 b1 (sl : list wtok) o2 lb ts : rule_ctx s ->
+Lemma step_begin p s st0 o1 t1 b1 (sl : list wtok) o2 lb ts : rule_ctx s -> gap_at (s :: st0) o1 ->
   wf_state p (s :: st0) (src_toks ((o1, (t1, b1)) :: sl) ++ optws o2 ++ (TLeftBrace, lb) :: ts) ->
   sel_first t1 = true -> toks_ok 0 ((o1, (t1, b1)) :: sl) -> lv_after 0 ((o1, (t1, b1)) :: sl) = 0 ->
   exists p', parse_next p = POk (GBeginRuleset, p') /\ ptt p' = TWhitespace /\ pdata p' = [] /\
-    pbuf p' = expected_sel ((o1, (t1, b1)) :: sl) /\ perr p' = false /\
+    pbuf p' = expected_sel false ((o1, (t1, b1)) :: sl) /\ perr p' = false /\
     wf_state p' (SQualifiedRuleDeclarationList :: s :: st0) ts.
 Proof.
-  intros Hctx (Hi & Hl & Hst & Hlv & Hpe & Hkw & Hsty) Hfirst Hok Hlv0.
+  intros Hctx Hg (Hi & Hl & Hst & Hlv & Hpe & Hkw & Hsty) Hfirst Hok Hlv0.
   rewrite src_toks_cons in Hl. cbn [toks_ok fst snd] in Hok. destruct Hok as (Hv1 & Hok). cbn [lv_after fst snd] in Hlv0.
   unfold sel_first in Hfirst. repeat (apply andb_true_iff in Hfirst; destruct Hfirst as [Hfirst ?]).
   repeat match goal with X : negb _ = true |- _ => apply negb_true_iff in X end.
@@ -584,9 +684,9 @@ Proof.
   { pose proof (lexes_len _ _ Hi Hl) as Hlen. eapply fuel_split; [exact Hlen|].
     rewrite app_length. cbn [length]. rewrite app_length. rewrite app_length. cbn [length]. pose proof (src_toks_len sl) as Hsl.
     clear - Hsl. unfold wtok, tok in *. lia. }
-  destruct HN as (f' & HN). assert (HF : (1 <= next_fuel p)%nat) by (apply next_fuel_pos; exact Hi).
+  destruct HN as (f' & HN). pose proof (next_fuel_ok p Hi) as HF.
   unfold parse_next. cbv zeta. change (prevend (set_buf (set_err p false) [])) with (prevend p). rewrite Hpe.
-  destruct (pop_token_ows (next_fuel p) true (set_buf (set_err p false) []) o1 t1 b1 _ Hi Hkw Hl Hp1 HF) as (z1 & Hpop & Hl1 & Hi1).
+  destruct (pop_token_ows (next_fuel p) true (set_buf (set_err p false) []) o1 t1 b1 _ HF Hkw Hl Hp1 (cm_out_no _ _ true (set_buf (set_err p false) []) Hg Hst)) as (z1 & Hpop & Hl1 & Hi1).
   rewrite Hpop. cbn [pbind fst snd]. cbn [set_tok relex set_err pst set_buf]. rewrite Hst.
   rewrite (rule_dispatch s st0 _ _ Hctx) by (cbn [set_tok ptt]; assumption).
   unfold parse_qualified_rule.
@@ -603,7 +703,7 @@ Proof.
                 pst q0 = s :: st0 /\ perr q0 = false /\ prevend q0 = false /\ isstyle q0 = true).
   { subst q0. cbn [set_buf set_tok relex set_err pl pbuf plevel ptt pdata keepws pst perr prevend isstyle]. repeat split; assumption. }
   destruct Hq0 as (B1 & B2 & B3 & B4 & B5 & B6 & B7 & B8 & B9 & B10).
-  destruct (qual_tokens (next_fuel p) (optws o2 ++ (TLeftBrace, lb) :: ts) HF sl (S f') q1
+  destruct (qual_tokens (next_fuel p) (optws o2 ++ (TLeftBrace, lb) :: ts) sl (S f') q1
               (ia_next false (ptt q0)) (combinator (pdata q0))) as (q2 & ia' & sk' & Hrun & Hi2 & Hl2 & Hb2 & Hlv2 & Hs2).
   { rewrite A1, B1. exact Hi1. }
   { rewrite A6. exact B6. }
@@ -612,7 +712,6 @@ Proof.
   rewrite Hrun. destruct Hs2 as (S1 & S2 & S3 & S4 & S5 & S6 & S7).
   destruct (qual_end f' (next_fuel p) q2 o2 lb ts ia' sk' Hi2) as (z3 & Hi3 & Hl3 & Heq3).
   { rewrite S1, A6. exact B6. }
-  { exact HF. }
   { rewrite Hlv2, A3, B3, B4. exact Hlv0. }
   { exact Hl2. }
   rewrite Heq3. eexists. split; [reflexivity|].
@@ -624,7 +723,7 @@ Proof.
     rewrite Hno. reflexivity. }
   split; [rewrite S5, A8; exact B8|].
   unfold wf_state. cbn [push_st set_st relex pl pst plevel prevend keepws isstyle].
-  split; [exact Hi3|]. split; [exact Hl3|]. split; [rewrite S2, A7, B7; reflexivity|].
+  split; [exact (proj1 Hi3)|]. split; [exact Hl3|]. split; [rewrite S2, A7, B7; reflexivity|].
   split; [rewrite Hlv2, A3, B3, B4; exact Hlv0|]. split; [rewrite S6, A9; exact B9|]. split; [rewrite S1, A6; exact B6|].
   rewrite S7, A10. exact B10.
 Qed.
@@ -649,14 +748,14 @@ Proof.
 Qed.
 
 (* Next in a declaration list, on a property name: everything up to the loop of parseDeclaration *)
-Lemma decl_head p s st0 o1 prop ts : decl_ctx s -> wf_state p (s :: st0) (optws o1 ++ (TIdent, prop) :: ts) ->
-  exists p0, parse_next p = declaration_loop (next_fuel p) (next_fuel p) p0 /\ css_inv (pl p0) /\ lexes (pl p0) ts /\
+Lemma decl_head p s st0 o1 prop ts : decl_ctx s -> gap_at (s :: st0) o1 -> wf_state p (s :: st0) (optws o1 ++ (TIdent, prop) :: ts) ->
+  exists p0, parse_next p = declaration_loop (next_fuel p) (next_fuel p) p0 /\ cinv (next_fuel p) (pl p0) /\ lexes (pl p0) ts /\
     pbuf p0 = [(TIdent, prop)] /\ ptt p0 = TIdent /\ pdata p0 = prop /\ pst p0 = s :: st0 /\
     plevel p0 = 0 /\ prevend p0 = false /\ keepws p0 = false /\ isstyle p0 = true /\ perr p0 = false.
 Proof.
-  intros Hctx (Hi & Hl & Hst & Hlv & Hpe & Hkw & Hsty).
+  intros Hctx Hg (Hi & Hl & Hst & Hlv & Hpe & Hkw & Hsty).
   unfold parse_next. cbv zeta. change (prevend (set_buf (set_err p false) [])) with (prevend p). rewrite Hpe.
-  destruct (pop_token_ows (next_fuel p) true (set_buf (set_err p false) []) o1 TIdent prop ts Hi Hkw Hl eq_refl (next_fuel_pos p Hi))
+  destruct (pop_token_ows (next_fuel p) true (set_buf (set_err p false) []) o1 TIdent prop ts (next_fuel_ok p Hi) Hkw Hl eq_refl (cm_out_no _ _ true (set_buf (set_err p false) []) Hg Hst))
     as (z1 & Hpop & Hl1 & Hi1).
   rewrite Hpop. cbn [pbind fst snd]. cbn [set_tok relex set_err pst set_buf]. rewrite Hst.
   rewrite (decl_dispatch s st0 _ _ Hctx) by (cbn [set_tok ptt]; first [discriminate|reflexivity]).
@@ -669,54 +768,53 @@ Proof.
 Qed.
 
 (* a declaration  ident ':' value-tokens ';'  inside a ruleset, with optional whitespace before each of its tokens *)
-Lemma step_decl p s st0 o1 prop o2 c vl o4 tb ts : decl_ctx s -> term_ok tb ->
+Lemma step_decl p s st0 o1 prop o2 c vl o4 tb ts : decl_ctx s -> gap_at (s :: st0) o1 -> term_ok tb ->
   wf_state p (s :: st0)
            (optws o1 ++ (TIdent, prop) :: optws o2 ++ (TColon, c) :: src_toks vl ++ optws o4 ++ tb :: ts) ->
-  vl <> [] -> toks_ok 0 vl -> lv_after 0 vl = 0 ->
+  toks_ok 0 vl -> lv_after 0 vl = 0 ->
   exists p', parse_next p = POk (GDeclaration, p') /\ ptt p' = TIdent /\ pdata p' = to_lower prop /\
     pbuf p' = expected_vals vl /\ perr p' = false /\ wf_after tb p' (s :: st0) ts.
 Proof.
-  intros Hctx Hterm Hw Hne Hok Hlv0. pose proof Hw as (Hi & Hl & _).
-  destruct (decl_head p s st0 o1 prop _ Hctx Hw) as (p0 & Hpn & Hi0 & Hl0 & Hb0 & Ht0 & Hd0 & Hst0 & Hlv & Hpe0 & Hkw0 & Hsty0 & Herr0).
+  intros Hctx Hg Hterm Hw Hok Hlv0. pose proof Hw as (Hi & Hl & _).
+  destruct (decl_head p s st0 o1 prop _ Hctx Hg Hw) as (p0 & Hpn & Hi0 & Hl0 & Hb0 & Ht0 & Hd0 & Hst0 & Hlv & Hpe0 & Hkw0 & Hsty0 & Herr0).
   (* fuel *)
   assert (HN : exists f', next_fuel p = S (length vl + S f')).
   { pose proof (lexes_len _ _ Hi Hl) as Hlen. eapply fuel_split; [exact Hlen|].
     rewrite app_length. cbn [length]. rewrite app_length. cbn [length]. rewrite app_length. pose proof (src_toks_len vl) as Hsl.
     clear - Hsl. unfold wtok, tok in *. lia. }
-  destruct HN as (f' & HN). assert (HF : (1 <= next_fuel p)%nat) by (apply next_fuel_pos; exact Hi).
+  destruct HN as (f' & HN). pose proof (next_fuel_ok p Hi) as HF.
   rewrite HN in Hpn at 1. rewrite Hpn.
   (* ':' *)
-  destruct (decl_iter (length vl + S f') (next_fuel p) p0 o2 TColon c _ Hi0 Hkw0 HF Hl0) as (z1 & Hi1 & Hl1 & Heq1).
+  destruct (decl_iter (length vl + S f') (next_fuel p) p0 o2 TColon c _ Hi0 Hkw0 Hl0) as (z1 & Hi1 & Hl1 & Heq1).
   { rewrite Hlv. reflexivity. }
   { exists [], (TIdent, prop). split; [rewrite Hb0; reflexivity|reflexivity]. }
-  rewrite Heq1. destruct (after_tok_f p0 z1 (isws o2) TColon c) as (G1 & G2 & G3 & G4).
-  set (p1 := after_tok p0 z1 (isws o2) TColon c) in *.
+  rewrite Heq1. destruct (after_tok_f p0 z1 o2 TColon c) as (G1 & G2 & G3 & G4).
+  set (p1 := after_tok p0 z1 o2 TColon c) in *.
   (* the value *)
-  destruct (decl_values (next_fuel p) (optws o4 ++ tb :: ts) HF vl (S f') p1) as (p2 & Hrun & Hi2 & Hl2 & Hb2 & Hlv2 & Hs2).
+  destruct (decl_values (next_fuel p) (optws o4 ++ tb :: ts) vl (S f') p1) as (p2 & Hrun & Hi2 & Hl2 & Hb2 & Hlv2 & Hs2).
   { rewrite G1. exact Hi1. }
   { destruct G4 as (G4 & _). rewrite G4. exact Hkw0. }
   { rewrite G1. exact Hl1. }
   { rewrite G3, Hlv. exact Hok. }
-  { exists (pbuf p0 ++ (if isws o2 then [sp] else [])), (TColon, c). split; [rewrite G2, app_assoc; reflexivity|reflexivity]. }
+  { exists (pbuf p0 ++ (if issp o2 then [sp] else [])), (TColon, c). split; [rewrite G2, app_assoc; reflexivity|reflexivity]. }
   rewrite Hrun.
   pose proof (rest_same_trans _ _ _ G4 Hs2) as (S1 & S2 & S3 & S4 & S5 & S6 & S7).
   (* ';' *)
   destruct (decl_end f' (next_fuel p) p2 o4 tb ts (TIdent, prop)
-              ((if isws o2 then [sp] else []) ++ (TColon, c) :: buf_toks vl) c (buf_toks vl) Hi2) as (z3 & Hi3 & Hl3 & Heq3).
+              ((if issp o2 then [sp] else []) ++ (TColon, c) :: buf_toks vl) c (buf_toks vl) Hi2) as (z3 & Hi3 & Hl3 & Heq3).
   { rewrite S1. exact Hkw0. }
-  { exact HF. }
   { rewrite Hlv2, G3, Hlv. exact Hlv0. }
   { exact Hterm. }
   { exact Hl2. }
   { rewrite Hb2, G2, Hb0. cbn [app]. rewrite <- app_assoc. reflexivity. }
-  { destruct o2; cbn [isws app drop_ws]; [change (is_wstok sp) with true; cbv beta iota; cbn [drop_ws]|]; reflexivity. }
+  { destruct (issp o2); cbn [app drop_ws]; [change (is_wstok sp) with true; cbv beta iota; cbn [drop_ws]|]; reflexivity. }
   rewrite Heq3. eexists. split; [reflexivity|].
   cbn [set_prevend set_tok set_buf relex ptt pdata pbuf perr].
   split; [rewrite S3; exact Ht0|]. split; [rewrite S4, Hd0; reflexivity|].
   split; [eapply compact_expected; eassumption|]. split; [rewrite S5; exact Herr0|].
   unfold wf_after, wf_state, wf_pend. destruct (is_t (fst tb) TRightBrace);
     cbn [set_prevend set_tok set_buf relex pl pst plevel prevend keepws isstyle];
-    (split; [exact Hi3|]; split; [exact Hl3|]; split; [rewrite S2; exact Hst0|]; split; [rewrite Hlv2, G3, Hlv; exact Hlv0|];
+    (split; [exact (proj1 Hi3)|]; split; [exact Hl3|]; split; [rewrite S2; exact Hst0|]; split; [rewrite Hlv2, G3, Hlv; exact Hlv0|];
      split; [reflexivity|]; split; [rewrite S1; exact Hkw0|rewrite S7; exact Hsty0]).
 Qed.
 
@@ -728,15 +826,15 @@ Lemma sel_compact_sp last out ia nxt rest : sel_compact (last :: out) ia (sp :: 
 Proof. reflexivity. Qed.
 
 Lemma sel_compact_buf : forall r t out ia, is_wstok t = false -> Forall (fun x => is_wstok (snd x) = false) r ->
-  sel_compact (t :: out) ia (buf_toks r) = rev out ++ t :: sel_buf (combinator (snd t)) ia r.
+  sel_compact (t :: out) ia (buf_toks r) = rev out ++ t :: sel_buf issp (combinator (snd t)) ia r.
 Proof.
   induction r as [|[o [tt bb]] r IH]; intros t out ia Ht Hr.
   - cbn [buf_toks flat_map sel_compact sel_buf rev]. reflexivity.
   - inversion Hr as [|? ? Hx Hr']; subst. cbn [snd] in Hx. rewrite buf_toks_cons. cbn [sel_buf fst snd].
     assert (Hnext : forall out', sel_compact out' ia ((tt, bb) :: buf_toks r) =
-                                 rev out' ++ (tt, bb) :: sel_buf (combinator bb) (ia_next ia tt) r).
+                                 rev out' ++ (tt, bb) :: sel_buf issp (combinator bb) (ia_next ia tt) r).
     { intros out'. cbn [sel_compact]. rewrite Hx. cbn [andb fst]. rewrite (IH (tt, bb) out' _ Hx Hr'). reflexivity. }
-    destruct o as [wb|]; cbn [isws app].
+    destruct (issp o); cbn [app].
     + rewrite sel_compact_sp. cbn [snd]. unfold addws_sel.
       change (is_combinator (snd t)) with (combinator (snd t)). change (is_combinator bb) with (combinator bb).
       destruct (ia || combinator (snd t) || combinator bb) eqn:Ec; rewrite Hnext; cbn [rev];
@@ -745,24 +843,24 @@ Proof.
 Qed.
 
 Lemma sel_compact_expected o1 t1 b1 sl : is_wstok (t1, b1) = false -> Forall (fun x => is_wstok (snd x) = false) sl ->
-  sel_compact [] false ((t1, b1) :: buf_toks sl) = expected_sel ((o1, (t1, b1)) :: sl).
+  sel_compact [] false ((t1, b1) :: buf_toks sl) = expected_sel true ((o1, (t1, b1)) :: sl).
 Proof.
   intros H1 Hs. cbn [sel_compact]. rewrite H1. cbn [andb fst]. rewrite (sel_compact_buf sl (t1, b1) [] _ H1 Hs).
   unfold expected_sel. cbn [sel_buf fst snd rev app].
-  assert (Hno : addws_sel (isws o1) true false b1 = false) by (unfold addws_sel; destruct (combinator b1), (isws o1); reflexivity).
+  assert (Hno : addws_sel (issp o1) true false b1 = false) by (unfold addws_sel; destruct (combinator b1), (issp o1); reflexivity).
   rewrite Hno. reflexivity.
 Qed.
 
 (* the '{' of a nested ruleset in the loop of parseDeclaration *)
-Lemma decl_begin f F p o lb ts : css_inv (pl p) -> keepws p = false -> (1 <= F)%nat -> plevel p = 0 -> isstyle p = true ->
+Lemma decl_begin f F p o lb ts : cinv F (pl p) -> keepws p = false -> plevel p = 0 -> isstyle p = true ->
   lexes (pl p) (optws o ++ (TLeftBrace, lb) :: ts) ->
-  exists z', css_inv z' /\ lexes z' ts /\
+  exists z', cinv F z' /\ lexes z' ts /\
     declaration_loop (S f) F p =
-      POk (GBeginRuleset, push_st (set_tok (set_buf (relex p z' (isws o) false) (sel_compact [] false (pbuf p))) TWhitespace [])
+      POk (GBeginRuleset, push_st (set_tok (set_buf (relex p z' (isws o) (iscm o)) (sel_compact [] false (pbuf p))) TWhitespace [])
                                   SQualifiedRuleDeclarationList).
 Proof.
-  intros Hi Hkw HF Hlv Hsty Hl.
-  destruct (pop_token_ows F false p o TLeftBrace lb ts Hi Hkw Hl eq_refl HF) as (z' & Hpop & Hl' & Hi').
+  intros Hi Hkw Hlv Hsty Hl.
+  destruct (pop_token_ows F false p o TLeftBrace lb ts Hi Hkw Hl eq_refl (fun _ => eq_refl)) as (z' & Hpop & Hl' & Hi').
   exists z'. split; [exact Hi'|]. split; [exact Hl'|].
   rewrite declaration_loop_S, Hpop. cbn [pbind fst snd]. unfold ends_unit. cbn [relex plevel pbuf isstyle]. rewrite Hlv, Hsty.
   evis. cbn [Z.eqb orb andb]. reflexivity.
@@ -782,21 +880,19 @@ Proof.
   - assert (b0 = b) by congruence. subst b0. destruct b as [|c b']; [|eauto]. change (len (@nil Z)) with 0 in Hlen. lia.
 Qed.
 
-Lemma nest_head p s st0 o1 t1 b1 ts : decl_ctx s -> wf_state p (s :: st0) (optws o1 ++ (t1, b1) :: ts) ->
+Lemma nest_head p s st0 o1 t1 b1 ts : decl_ctx s -> gap_at (s :: st0) o1 -> wf_state p (s :: st0) (optws o1 ++ (t1, b1) :: ts) ->
   nest_first (t1, b1) = true ->
-  exists p0, parse_next p = declaration_loop (next_fuel p) (next_fuel p) p0 /\ css_inv (pl p0) /\ lexes (pl p0) ts /\
+  exists p0, parse_next p = declaration_loop (next_fuel p) (next_fuel p) p0 /\ cinv (next_fuel p) (pl p0) /\ lexes (pl p0) ts /\
     pbuf p0 = [(t1, b1)] /\ ptt p0 = t1 /\ pdata p0 = b1 /\ pst p0 = s :: st0 /\
     plevel p0 = tok_lv 0 t1 /\ prevend p0 = false /\ keepws p0 = false /\ isstyle p0 = true /\ perr p0 = false.
 Proof.
-  intros Hctx (Hi & Hl & Hst & Hlv & Hpe & Hkw & Hsty) Hfirst. unfold nest_first in Hfirst. cbn [fst snd] in Hfirst.
+  intros Hctx Hg (Hi & Hl & Hst & Hlv & Hpe & Hkw & Hsty) Hfirst. unfold nest_first in Hfirst. cbn [fst snd] in Hfirst.
   assert (Hp1 : plain_tok t1 = true) by (destruct t1; try discriminate Hfirst; reflexivity).
   unfold parse_next. cbv zeta. change (prevend (set_buf (set_err p false) [])) with (prevend p). rewrite Hpe.
-  destruct (pop_token_ows (next_fuel p) true (set_buf (set_err p false) []) o1 t1 b1 ts Hi Hkw Hl Hp1 (next_fuel_pos p Hi))
+  destruct (pop_token_ows (next_fuel p) true (set_buf (set_err p false) []) o1 t1 b1 ts (next_fuel_ok p Hi) Hkw Hl Hp1 (cm_out_no _ _ true (set_buf (set_err p false) []) Hg Hst))
     as (z1 & Hpop & Hl1 & Hi1).
   assert (Hne : exists c b', b1 = c :: b').
-  { destruct o1 as [wb|]; cbn [optws app] in Hl.
-    - destruct (lexes_cons _ _ _ _ Hl) as (z0 & Hn0 & Hl0 & _). apply (lexes_nonempty z0 t1 b1 ts (css_inv_next _ _ _ _ Hi Hn0) Hl0).
-    - apply (lexes_nonempty _ _ _ _ Hi Hl). }
+  { destruct (lexes_skip o1 _ _ Hi Hl) as (z0 & Hi0 & Hl0). apply (lexes_nonempty z0 t1 b1 ts Hi0 Hl0). }
   rewrite Hpop. cbn [pbind fst snd]. cbn [set_tok relex set_err pst set_buf]. rewrite Hst.
   rewrite (decl_dispatch s st0 _ _ Hctx) by (cbn [set_tok ptt]; destruct t1; try discriminate Hfirst; first [discriminate|reflexivity]).
   destruct (is_t t1 TDelim) eqn:Ed.
@@ -820,33 +916,33 @@ Proof.
 Qed.
 
 (* a nested ruleset: selector tokens, '{' *)
-Lemma step_nested p s st0 o1 t1 b1 (sl : list wtok) o2 lb ts : decl_ctx s ->
+Lemma step_nested p s st0 o1 t1 b1 (sl : list wtok) o2 lb ts : decl_ctx s -> gap_at (s :: st0) o1 ->
   wf_state p (s :: st0) (src_toks ((o1, (t1, b1)) :: sl) ++ optws o2 ++ (TLeftBrace, lb) :: ts) ->
   nest_first (t1, b1) = true -> toks_ok 0 ((o1, (t1, b1)) :: sl) -> lv_after 0 ((o1, (t1, b1)) :: sl) = 0 ->
   exists p', parse_next p = POk (GBeginRuleset, p') /\ ptt p' = TWhitespace /\ pdata p' = [] /\
-    pbuf p' = expected_sel ((o1, (t1, b1)) :: sl) /\ perr p' = false /\
+    pbuf p' = expected_sel true ((o1, (t1, b1)) :: sl) /\ perr p' = false /\
     wf_state p' (SQualifiedRuleDeclarationList :: s :: st0) ts.
 Proof.
-  intros Hctx Hw Hfirst Hok Hlv0. pose proof Hw as (Hi & Hl & _).
+  intros Hctx Hg Hw Hfirst Hok Hlv0. pose proof Hw as (Hi & Hl & _).
   rewrite src_toks_cons in Hw, Hl. cbn [toks_ok fst snd] in Hok. destruct Hok as (Hv1 & Hok). cbn [lv_after fst snd] in Hlv0.
-  destruct (nest_head p s st0 o1 t1 b1 _ Hctx Hw Hfirst) as (p0 & Hpn & Hi0 & Hl0 & Hb0 & Ht0 & Hd0 & Hst0 & Hlv & Hpe0 & Hkw0 & Hsty0 & Herr0).
+  destruct (nest_head p s st0 o1 t1 b1 _ Hctx Hg Hw Hfirst) as (p0 & Hpn & Hi0 & Hl0 & Hb0 & Ht0 & Hd0 & Hst0 & Hlv & Hpe0 & Hkw0 & Hsty0 & Herr0).
   destruct (vtok_ok_inv _ _ Hv1) as (_ & _ & _ & _ & _ & _ & Hws1).
   assert (HN : exists f', next_fuel p = S (length sl + S f')).
   { pose proof (lexes_len _ _ Hi Hl) as Hlen. eapply fuel_split; [exact Hlen|].
     rewrite app_length. cbn [length]. rewrite app_length. rewrite app_length. cbn [length]. pose proof (src_toks_len sl) as Hsl.
     clear - Hsl. unfold wtok, tok in *. lia. }
-  destruct HN as (f' & HN). assert (HF : (1 <= next_fuel p)%nat) by (apply next_fuel_pos; exact Hi).
+  destruct HN as (f' & HN). pose proof (next_fuel_ok p Hi) as HF.
   assert (Hq : forall q, declaration_loop (next_fuel p) (next_fuel p) q = declaration_loop (S (length sl + S f')) (next_fuel p) q)
     by (intros q; rewrite HN at 1; reflexivity).
   rewrite Hpn, Hq. clear Hq.
   (* the loop needs at least one iteration per token; the first S is spent on ... nothing: shift it *)
   assert (Hshift : S (length sl + S f') = (length sl + S (S f'))%nat) by lia. rewrite Hshift.
-  destruct (decl_values (next_fuel p) (optws o2 ++ (TLeftBrace, lb) :: ts) HF sl (S (S f')) p0) as (p2 & Hrun & Hi2 & Hl2 & Hb2 & Hlv2 & Hs2).
+  destruct (decl_values (next_fuel p) (optws o2 ++ (TLeftBrace, lb) :: ts) sl (S (S f')) p0) as (p2 & Hrun & Hi2 & Hl2 & Hb2 & Hlv2 & Hs2).
   { exact Hi0. } { exact Hkw0. } { exact Hl0. } { rewrite Hlv. exact Hok. }
   { exists [], (t1, b1). split; [rewrite Hb0; reflexivity|exact Hws1]. }
   rewrite Hrun. destruct Hs2 as (S1 & S2 & S3 & S4 & S5 & S6 & S7).
   destruct (decl_begin (S f') (next_fuel p) p2 o2 lb ts Hi2) as (z3 & Hi3 & Hl3 & Heq3).
-  { rewrite S1. exact Hkw0. } { exact HF. } { rewrite Hlv2, Hlv. exact Hlv0. } { rewrite S7. exact Hsty0. } { exact Hl2. }
+  { rewrite S1. exact Hkw0. } { rewrite Hlv2, Hlv. exact Hlv0. } { rewrite S7. exact Hsty0. } { exact Hl2. }
   rewrite Heq3. eexists. split; [reflexivity|].
   cbn [push_st set_st set_tok set_buf relex ptt pdata pbuf perr].
   split; [reflexivity|]. split; [reflexivity|].
@@ -854,71 +950,57 @@ Proof.
   { rewrite Hb2, Hb0. cbn [app]. apply sel_compact_expected; [exact Hws1|]. eapply toks_ok_nonws; exact Hok. }
   split; [rewrite S5; exact Herr0|].
   unfold wf_state. cbn [push_st set_st set_tok set_buf relex pl pst plevel prevend keepws isstyle].
-  split; [exact Hi3|]. split; [exact Hl3|]. split; [rewrite S2, Hst0; reflexivity|].
+  split; [exact (proj1 Hi3)|]. split; [exact Hl3|]. split; [rewrite S2, Hst0; reflexivity|].
   split; [rewrite Hlv2, Hlv; exact Hlv0|]. split; [rewrite S6; exact Hpe0|]. split; [rewrite S1; exact Hkw0|rewrite S7; exact Hsty0].
 Qed.
 
 (* --- top-level comments, CDO and CDC ------------------------------------------------------------------------------------ *)
 (* popToken(true) at the top level hands a comment out *)
-Lemma pop_token_comment F p o cb ts : keepws p = false -> len (pst p) = 1 -> (2 <= F)%nat ->
-  lexes (pl p) (optws o ++ (TComment, cb) :: ts) -> css_inv (pl p) ->
-  exists z', pop_token F true p = POk (TComment, cb, relex p z' (isws o) true) /\ lexes z' ts /\ css_inv z'.
+Lemma pop_token_comment F p o cb ts : keepws p = false -> len (pst p) = 1 -> cinv F (pl p) -> iscm o = false ->
+  lexes (pl p) (optws o ++ (TComment, cb) :: ts) ->
+  exists z', pop_token F true p = POk (TComment, cb, relex p z' (isws o) true) /\ lexes z' ts /\ cinv F z'.
 Proof.
-  intros Hkw Hst HF Hl Hi. destruct o as [wb|]; cbn [optws app isws] in *.
-  - destruct (lexes_cons _ _ _ _ Hl) as (z1 & Hn1 & Hl1 & _).
-    destruct (lexes_cons _ _ _ _ Hl1) as (z2 & Hn2 & Hl2 & _).
-    exists z2. split; [|split; [exact Hl2|eapply css_inv_next; [|exact Hn2]; eapply css_inv_next; eassumption]].
-    unfold pop_token, lex_next. cbn [set_prevcomment set_prevws pl]. rewrite Hn1. cbn [pbind fst snd].
-    destruct F as [|[|f]]; try lia. rewrite pop_loop_eq. cbn [set_pl set_prevcomment set_prevws keepws]. rewrite Hkw.
-    change (is_t TWhitespace TWhitespace) with true. change (is_t TWhitespace TComment) with false. cbn [negb andb orb].
-    unfold lex_next. cbn [set_pl set_prevcomment set_prevws pl]. rewrite Hn2. cbn [pbind fst snd]. rewrite pop_loop_eq.
-    change (is_t TComment TComment) with true. change (is_t TComment TWhitespace) with false. rewrite orb_true_r.
-    cbn [set_pl set_prevcomment set_prevws pst andb]. rewrite Hst. cbn [Z.eqb Pos.eqb].
-    destruct p; reflexivity.
-  - destruct (lexes_cons _ _ _ _ Hl) as (z1 & Hn1 & Hl1 & _).
-    exists z1. split; [|split; [exact Hl1|eapply css_inv_next; eassumption]].
-    unfold pop_token, lex_next. cbn [set_prevcomment set_prevws pl]. rewrite Hn1. cbn [pbind fst snd].
-    destruct F as [|f]; try lia. rewrite pop_loop_eq.
-    change (is_t TComment TComment) with true. change (is_t TComment TWhitespace) with false. rewrite orb_true_r.
-    cbn [set_pl set_prevcomment set_prevws pst andb]. rewrite Hst. cbn [Z.eqb Pos.eqb].
-    destruct p; reflexivity.
+  intros Hkw Hst Hi Hnc Hl.
+  destruct (pop_token_gap F true p o TComment cb ts Hi Hl (fun _ => Hkw)) as (z' & Hpop & Hl' & Hi').
+  - intros H. congruence.
+  - apply andb_false_r.
+  - intros _. unfold cm_out. rewrite Hst. reflexivity.
+  - exists z'. rewrite Hnc in Hpop. cbn [orb] in Hpop. auto.
 Qed.
 
-Lemma next_fuel_2 p : (2 <= next_fuel p)%nat.
-Proof. unfold next_fuel. lia. Qed.
-
-Lemma step_comment p o cb ts : wf_state p [SStylesheet] (optws o ++ (TComment, cb) :: ts) ->
+Lemma step_comment p o cb ts : wf_state p [SStylesheet] (optws o ++ (TComment, cb) :: ts) -> iscm o = false ->
   exists p', parse_next p = POk (GComment, p') /\ ptt p' = TComment /\ pdata p' = cb /\ perr p' = false /\
     wf_state p' [SStylesheet] ts.
 Proof.
-  intros (Hi & Hl & Hst & Hlv & Hpe & Hkw & Hsty).
+  intros (Hi & Hl & Hst & Hlv & Hpe & Hkw & Hsty) Hnc.
   unfold parse_next. cbv zeta. change (prevend (set_buf (set_err p false) [])) with (prevend p). rewrite Hpe.
-  destruct (pop_token_comment (next_fuel p) (set_buf (set_err p false) []) o cb ts Hkw ltac:(cbn [set_err pst set_buf]; rewrite Hst; reflexivity)
-              (next_fuel_2 p) Hl Hi) as (z' & Hpop & Hl' & Hi').
-  rewrite Hpop. cbn [pbind fst snd]. cbn [set_tok relex set_err pst set_buf]. rewrite Hst.
+  destruct (pop_token_comment (next_fuel p) (set_buf (set_err p false) []) o cb ts Hkw ltac:(cbn [set_err set_buf pst]; rewrite Hst; reflexivity)
+              (next_fuel_ok p Hi) Hnc Hl) as (z' & Hpop & Hl' & Hi').
+  rewrite Hpop. cbn [pbind fst snd]. cbn [set_tok relex set_err set_buf pst]. rewrite Hst.
   unfold parse_stylesheet. cbn [set_tok ptt]. evis. cbn [orb].
-  eexists. split; [reflexivity|]. cbn [set_tok relex set_err ptt pdata perr set_buf].
+  eexists. split; [reflexivity|]. cbn [set_tok relex set_err set_buf ptt pdata perr].
   split; [reflexivity|]. split; [reflexivity|]. split; [reflexivity|].
-  unfold wf_state. cbn [set_tok relex set_err pl pst plevel prevend keepws isstyle set_buf].
-  split; [exact Hi'|]. split; [exact Hl'|]. auto.
+  unfold wf_state. cbn [set_tok relex set_err set_buf pl pst plevel prevend keepws isstyle].
+  split; [exact (proj1 Hi')|]. split; [exact Hl'|]. auto.
 Qed.
 
 Definition is_cd (t : ttype) : bool := is_t t TCDO || is_t t TCDC.
 
-Lemma step_cd p o t b ts : wf_state p [SStylesheet] (optws o ++ (t, b) :: ts) -> is_cd t = true ->
+Lemma step_cd p o t b ts : wf_state p [SStylesheet] (optws o ++ (t, b) :: ts) -> is_cd t = true -> iscm o = false ->
   exists p', parse_next p = POk (GToken, p') /\ ptt p' = t /\ pdata p' = b /\ perr p' = false /\
     wf_state p' [SStylesheet] ts.
 Proof.
-  intros (Hi & Hl & Hst & Hlv & Hpe & Hkw & Hsty) Hcd.
+  intros (Hi & Hl & Hst & Hlv & Hpe & Hkw & Hsty) Hcd Hnc.
+  assert (Hg : gap_at [SStylesheet] o) by (intros H; congruence).
   assert (Hp : plain_tok t = true) by (destruct t; try discriminate Hcd; reflexivity).
   unfold parse_next. cbv zeta. change (prevend (set_buf (set_err p false) [])) with (prevend p). rewrite Hpe.
-  destruct (pop_token_ows (next_fuel p) true (set_buf (set_err p false) []) o t b ts Hi Hkw Hl Hp (next_fuel_pos p Hi)) as (z' & Hpop & Hl' & Hi').
+  destruct (pop_token_ows (next_fuel p) true (set_buf (set_err p false) []) o t b ts (next_fuel_ok p Hi) Hkw Hl Hp (cm_out_no _ _ true (set_buf (set_err p false) []) Hg Hst)) as (z' & Hpop & Hl' & Hi').
   rewrite Hpop. cbn [pbind fst snd]. cbn [set_tok relex set_err pst set_buf]. rewrite Hst.
   unfold parse_stylesheet. cbn [set_tok ptt]. unfold is_cd in Hcd. rewrite Hcd.
   eexists. split; [reflexivity|]. cbn [set_tok relex set_err ptt pdata perr set_buf].
   split; [reflexivity|]. split; [reflexivity|]. split; [reflexivity|].
   unfold wf_state. cbn [set_tok relex set_err pl pst plevel prevend keepws isstyle set_buf].
-  split; [exact Hi'|]. split; [exact Hl'|]. auto.
+  split; [exact (proj1 Hi')|]. split; [exact Hl'|]. auto.
 Qed.
 
 (* --- custom properties -------------------------------------------------------------------------------------------------- *)
@@ -992,7 +1074,7 @@ Proof.
 Qed.
 
 (* a custom property  --name ':' raw-tokens ';'  : the value is the exact source text *)
-Lemma step_custom p s st0 o1 name o2 c (raw : list tok) tb ts : custom_ctx s -> term_ok tb ->
+Lemma step_custom p s st0 o1 name o2 c (raw : list tok) tb ts : custom_ctx s -> gap_at (s :: st0) o1 -> term_ok tb ->
   wf_state p (s :: st0)
            (optws o1 ++ (TCustomPropertyName, name) :: optws o2 ++ (TColon, c) :: raw ++ tb :: ts) ->
   raw_ok 0 raw -> raw_lv 0 raw = 0 ->
@@ -1000,27 +1082,27 @@ Lemma step_custom p s st0 o1 name o2 c (raw : list tok) tb ts : custom_ctx s -> 
     pbuf p' = [(TCustomPropertyValue, concat (map snd raw))] /\ perr p' = false /\
     wf_after tb p' (s :: st0) ts.
 Proof.
-  intros Hctx Hterm (Hi & Hl & Hst & Hlv & Hpe & Hkw & Hsty) Hok Hlv0.
+  intros Hctx Hg Hterm (Hi & Hl & Hst & Hlv & Hpe & Hkw & Hsty) Hok Hlv0.
   assert (HN : exists f', next_fuel p = S (length raw + S f')).
   { pose proof (lexes_len _ _ Hi Hl) as Hlen. eapply fuel_split; [exact Hlen|].
     rewrite app_length. cbn [length]. rewrite app_length. cbn [length]. rewrite app_length. cbn [length].
     clear. unfold tok. lia. }
-  destruct HN as (f' & HN). assert (HF : (1 <= next_fuel p)%nat) by (apply next_fuel_pos; exact Hi).
+  destruct HN as (f' & HN). pose proof (next_fuel_ok p Hi) as HF.
   unfold parse_next. cbv zeta. change (prevend (set_buf (set_err p false) [])) with (prevend p). rewrite Hpe.
-  destruct (pop_token_ows (next_fuel p) true (set_buf (set_err p false) []) o1 TCustomPropertyName name _ Hi Hkw Hl eq_refl HF)
+  destruct (pop_token_ows (next_fuel p) true (set_buf (set_err p false) []) o1 TCustomPropertyName name _ HF Hkw Hl eq_refl (cm_out_no _ _ true (set_buf (set_err p false) []) Hg Hst))
     as (z1 & Hpop & Hl1 & Hi1).
   rewrite Hpop. cbn [pbind fst snd]. cbn [set_tok relex set_err pst set_buf]. rewrite Hst.
   rewrite (custom_dispatch s st0 _ _ Hctx) by reflexivity.
   unfold parse_custom_property.
   match goal with |- context [pop_token _ false ?q] => set (q0 := q) end.
-  destruct (pop_token_ows (next_fuel p) false q0 o2 TColon c _ Hi1 Hkw Hl1 eq_refl HF) as (z2 & Hpop2 & Hl2 & Hi2).
+  destruct (pop_token_ows (next_fuel p) false q0 o2 TColon c _ Hi1 Hkw Hl1 eq_refl (fun _ => eq_refl)) as (z2 & Hpop2 & Hl2 & Hi2).
   rewrite Hpop2. cbn [pbind fst snd]. evis. cbn [negb].
   match goal with |- context [custom_loop _ ?q []] => set (q1 := q) end.
   assert (Hq : custom_loop (next_fuel p) q1 [] = custom_loop (length raw + S (S f')) q1 []).
   { rewrite HN. f_equal. clear. lia. }
   rewrite Hq. clear Hq.
   destruct (custom_raw raw (S (S f')) q1 [] (tb :: ts)) as (q2 & Hrun & Hi3 & Hl3 & Hlv3 & Hs3).
-  { exact Hi2. } { exact Hl2. } { change (plevel q1) with (plevel p). rewrite Hlv. exact Hok. }
+  { exact (proj1 Hi2). } { exact Hl2. } { change (plevel q1) with (plevel p). rewrite Hlv. exact Hok. }
   rewrite Hrun. cbn [app]. destruct tb as [tt bb]. unfold term_ok in Hterm. cbn [fst] in Hterm.
   destruct (lexes_cons _ _ _ _ Hl3) as (z4 & Hn4 & Hl4 & _). pose proof (css_inv_next _ _ _ _ Hi3 Hn4) as Hi4.
   rewrite custom_loop_S. unfold lex_next. rewrite Hn4. cbn [pbind fst snd]. unfold ends_unit. cbn [set_pl plevel].
@@ -1069,10 +1151,10 @@ Definition at_w (w first : bool) (t : ttype) : bool := w && negb (first && (is_t
 Definition addws_at (w first sk : bool) (t : ttype) (b : list Z) : bool :=
   negb (at_special b) && at_w w first t && negb sk && negb (is_t t TRightParenthesis).
 Definition sk_at (t : ttype) (b : list Z) : bool := if is_t t TLeftParenthesis then true else at_special b.
-Definition after_at (p : parser) (z' : lx) (w : bool) (t : ttype) (b : list Z) (first sk : bool) : parser :=
-  push_buf (let q := adjust_level (relex p z' w false) t in
+Definition after_at (p : parser) (z' : lx) (o : ws_t) (t : ttype) (b : list Z) (first sk : bool) : parser :=
+  push_buf (let q := adjust_level (relex p z' (isws o) (iscm o)) t in
             let q := if first && (is_t t TLeftParenthesis || is_t t TLeftBracket) then set_prevws q false else q in
-            if addws_at w first sk t b then push_buf q TWhitespace [32] else q) t b.
+            if addws_at (isws o) first sk t b then push_buf q TWhitespace [32] else q) t b.
 
 Fixpoint at_buf (first sk : bool) (l : list wtok) : list tok :=
   match l with
@@ -1082,11 +1164,11 @@ Fixpoint at_buf (first sk : bool) (l : list wtok) : list tok :=
   end.
 
 Lemma after_at_f p z' w t b first sk : pl (after_at p z' w t b first sk) = z' /\
-  pbuf (after_at p z' w t b first sk) = pbuf p ++ (if addws_at w first sk t b then [sp] else []) ++ [(t, b)] /\
+  pbuf (after_at p z' w t b first sk) = pbuf p ++ (if addws_at (isws w) first sk t b then [sp] else []) ++ [(t, b)] /\
   plevel (after_at p z' w t b first sk) = tok_lv (plevel p) t /\ rest_same p (after_at p z' w t b first sk).
 Proof.
   unfold after_at, adjust_level, tok_lv, rest_same, sp.
-  destruct (addws_at w first sk t b), (first && (is_t t TLeftParenthesis || is_t t TLeftBracket)), (opens t), (closes t);
+  destruct (addws_at (isws w) first sk t b), (first && (is_t t TLeftParenthesis || is_t t TLeftBracket)), (opens t), (closes t);
     cbn; rewrite <- ?app_assoc; repeat split.
 Qed.
 
@@ -1107,38 +1189,38 @@ Lemma at_rule_loop_S f F p h first sk : at_rule_loop (S f) F p h first sk =
      at_rule_loop f F (push_buf p t d) h false skipws).
 Proof. reflexivity. Qed.
 
-Lemma at_iter f F p h o t b ts first sk : css_inv (pl p) -> keepws p = false -> (1 <= F)%nat ->
+Lemma at_iter f F p h o t b ts first sk : cinv F (pl p) -> keepws p = false ->
   lexes (pl p) (optws o ++ (t, b) :: ts) -> vtok_ok (plevel p) t = true ->
-  exists z', css_inv z' /\ lexes z' ts /\
-    at_rule_loop (S f) F p h first sk = at_rule_loop f F (after_at p z' (isws o) t b first sk) h false (sk_at t b).
+  exists z', cinv F z' /\ lexes z' ts /\
+    at_rule_loop (S f) F p h first sk = at_rule_loop f F (after_at p z' o t b first sk) h false (sk_at t b).
 Proof.
-  intros Hi Hkw HF Hl Hv.
+  intros Hi Hkw Hl Hv.
   destruct (vtok_ok_inv _ _ Hv) as (Hp & Herr & Hlb & Hrb & Hsemi & Hcl & _).
-  destruct (pop_token_ows F false p o t b ts Hi Hkw Hl Hp HF) as (z' & Hpop & Hl' & Hi').
+  destruct (pop_token_ows F false p o t b ts Hi Hkw Hl Hp (fun _ => eq_refl)) as (z' & Hpop & Hl' & Hi').
   exists z'. split; [exact Hi'|]. split; [exact Hl'|].
   rewrite at_rule_loop_S, Hpop. cbn [pbind fst snd]. rewrite Hlb. cbn [andb]. unfold ends_unit. rewrite Hsemi, Hrb, Herr. cbn [orb andb].
-  assert (Hc0 : closes t && (plevel (relex p z' (isws o) false) =? 0) = false).
+  assert (Hc0 : closes t && (plevel (relex p z' (isws o) (iscm o)) =? 0) = false).
   { cbn [relex plevel]. destruct (closes t); [|reflexivity]. specialize (Hcl eq_refl). cbn [andb]. lia. }
   rewrite Hc0. cbv zeta. unfold after_at, addws_at, at_w, sk_at, at_special.
-  destruct (adjust_level_f (relex p z' (isws o) false) t) as (_ & F2 & _).
+  destruct (adjust_level_f (relex p z' (isws o) (iscm o)) t) as (_ & F2 & _).
   destruct first, (is_t t TLeftParenthesis), (is_t t TLeftBracket); cbn [andb orb negb set_prevws prevws]; rewrite ?F2; cbn [relex prevws];
     destruct (one_of [44; 58] b), (isws o), sk, (is_t t TRightParenthesis); reflexivity.
 Qed.
 
-Lemma at_tokens F h ts : (1 <= F)%nat -> forall sl f p first sk, css_inv (pl p) -> keepws p = false ->
+Lemma at_tokens F h ts : forall sl f p first sk, cinv F (pl p) -> keepws p = false ->
   lexes (pl p) (src_toks sl ++ ts) -> toks_ok (plevel p) sl ->
   exists p' first' sk', at_rule_loop (length sl + f) F p h first sk = at_rule_loop f F p' h first' sk' /\
-    css_inv (pl p') /\ lexes (pl p') ts /\ pbuf p' = pbuf p ++ at_buf first sk sl /\
+    cinv F (pl p') /\ lexes (pl p') ts /\ pbuf p' = pbuf p ++ at_buf first sk sl /\
     plevel p' = lv_after (plevel p) sl /\ rest_same p p'.
 Proof.
-  intros HF. induction sl as [|[o [t b]] sl IH]; intros f p first sk Hi Hkw Hl Hok.
+  induction sl as [|[o [t b]] sl IH]; intros f p first sk Hi Hkw Hl Hok.
   - exists p, first, sk. cbn [length Nat.add src_toks at_buf flat_map app lv_after] in *. rewrite app_nil_r.
     split; [reflexivity|]. split; [exact Hi|]. split; [exact Hl|]. split; [reflexivity|]. split; [reflexivity|].
     unfold rest_same. repeat split.
   - rewrite src_toks_cons in Hl. cbn [toks_ok fst snd] in Hok. destruct Hok as (Hv & Hok).
-    destruct (at_iter (length sl + f) F p h o t b _ first sk Hi Hkw HF Hl Hv) as (z' & Hi' & Hl' & Heq).
-    destruct (after_at_f p z' (isws o) t b first sk) as (G1 & G2 & G3 & G4).
-    set (p1 := after_at p z' (isws o) t b first sk) in *.
+    destruct (at_iter (length sl + f) F p h o t b _ first sk Hi Hkw Hl Hv) as (z' & Hi' & Hl' & Heq).
+    destruct (after_at_f p z' o t b first sk) as (G1 & G2 & G3 & G4).
+    set (p1 := after_at p z' o t b first sk) in *.
     destruct (IH f p1 false (sk_at t b)) as (p' & first' & sk' & Hrun & Hi2 & Hl2 & Hb2 & Hlv2 & Hs2).
     + rewrite G1. exact Hi'.
     + destruct G4 as (G4 & _). rewrite G4. exact Hkw.
@@ -1149,26 +1231,26 @@ Proof.
       eapply rest_same_trans; eassumption.
 Qed.
 
-Lemma at_term f F p h o tb ts first sk : css_inv (pl p) -> keepws p = false -> (1 <= F)%nat -> plevel p = 0 -> term_ok tb ->
+Lemma at_term f F p h o tb ts first sk : cinv F (pl p) -> keepws p = false -> plevel p = 0 -> term_ok tb ->
   lexes (pl p) (optws o ++ tb :: ts) ->
-  exists z', css_inv z' /\ lexes z' ts /\
-    at_rule_loop (S f) F p h first sk = POk (GAtRule, set_prevend (relex p z' (isws o) false) (is_t (fst tb) TRightBrace)).
+  exists z', cinv F z' /\ lexes z' ts /\
+    at_rule_loop (S f) F p h first sk = POk (GAtRule, set_prevend (relex p z' (isws o) (iscm o)) (is_t (fst tb) TRightBrace)).
 Proof.
-  intros Hi Hkw HF Hlv Hterm Hl. destruct tb as [tt bb]. unfold term_ok in Hterm. cbn [fst] in *.
+  intros Hi Hkw Hlv Hterm Hl. destruct tb as [tt bb]. unfold term_ok in Hterm. cbn [fst] in *.
   assert (Hp : plain_tok tt = true) by (destruct Hterm as [->| ->]; reflexivity).
-  destruct (pop_token_ows F false p o tt bb ts Hi Hkw Hl Hp HF) as (z' & Hpop & Hl' & Hi').
+  destruct (pop_token_ows F false p o tt bb ts Hi Hkw Hl Hp (fun _ => eq_refl)) as (z' & Hpop & Hl' & Hi').
   exists z'. split; [exact Hi'|]. split; [exact Hl'|].
   rewrite at_rule_loop_S, Hpop. cbn [pbind fst snd]. unfold ends_unit. cbn [relex plevel]. rewrite Hlv.
   destruct Hterm as [->| ->]; evis; reflexivity.
 Qed.
 
-Lemma at_brace f F p h o lb ts first sk : css_inv (pl p) -> keepws p = false -> (1 <= F)%nat -> plevel p = 0 ->
+Lemma at_brace f F p h o lb ts first sk : cinv F (pl p) -> keepws p = false -> plevel p = 0 ->
   lexes (pl p) (optws o ++ (TLeftBrace, lb) :: ts) ->
-  exists z', css_inv z' /\ lexes z' ts /\
-    at_rule_loop (S f) F p h first sk = POk (GBeginAtRule, push_st (relex p z' (isws o) false) (at_state h)).
+  exists z', cinv F z' /\ lexes z' ts /\
+    at_rule_loop (S f) F p h first sk = POk (GBeginAtRule, push_st (relex p z' (isws o) (iscm o)) (at_state h)).
 Proof.
-  intros Hi Hkw HF Hlv Hl.
-  destruct (pop_token_ows F false p o TLeftBrace lb ts Hi Hkw Hl eq_refl HF) as (z' & Hpop & Hl' & Hi').
+  intros Hi Hkw Hlv Hl.
+  destruct (pop_token_ows F false p o TLeftBrace lb ts Hi Hkw Hl eq_refl (fun _ => eq_refl)) as (z' & Hpop & Hl' & Hi').
   exists z'. split; [exact Hi'|]. split; [exact Hl'|].
   rewrite at_rule_loop_S, Hpop. cbn [pbind fst snd relex plevel]. rewrite Hlv. evis. reflexivity.
 Qed.
@@ -1208,23 +1290,22 @@ Proof.
     destruct (css_next_step z0 Hi) as [(_ & Hn')|(ty & b0 & z2 & Hn' & _ & _ & _ & _ & _ & Hat)]; rewrite Hn in Hn'.
     - discriminate.
     - assert (ty = TAtKeyword) by congruence. assert (b0 = name) by congruence. subst. apply Hat. reflexivity. }
-  intros Hi Hl. destruct o as [wb|]; cbn [optws app] in Hl; [|eapply H0; eassumption].
-  destruct (lexes_cons _ _ _ _ Hl) as (z1 & Hn1 & Hl1 & _). eapply (H0 z1); [eapply css_inv_next; [exact Hi|exact Hn1]|exact Hl1].
+  intros Hi Hl. destruct (lexes_skip o _ _ Hi Hl) as (z1 & Hi1 & Hl1). eapply (H0 z1); eassumption.
 Qed.
 
 (* Next on an at-keyword (anywhere but inside an unknown at-rule block): everything up to the loop of parseAtRule *)
-Lemma at_head p s st0 o1 name ts : s <> SAtRuleUnknown -> s <> SDeclarationList ->
+Lemma at_head p s st0 o1 name ts : s <> SAtRuleUnknown -> s <> SDeclarationList -> gap_at (s :: st0) o1 ->
   wf_state p (s :: st0) (optws o1 ++ (TAtKeyword, name) :: ts) ->
   exists h p0, at_rule_h (to_lower name) = POk h /\
-    parse_next p = at_rule_loop (next_fuel p) (next_fuel p) p0 h true false /\ css_inv (pl p0) /\ lexes (pl p0) ts /\
+    parse_next p = at_rule_loop (next_fuel p) (next_fuel p) p0 h true false /\ cinv (next_fuel p) (pl p0) /\ lexes (pl p0) ts /\
     pbuf p0 = [] /\ ptt p0 = TAtKeyword /\ pdata p0 = to_lower name /\ pst p0 = s :: st0 /\
     plevel p0 = 0 /\ prevend p0 = false /\ keepws p0 = false /\ isstyle p0 = true /\ perr p0 = false.
 Proof.
-  intros Hs1 Hs2 (Hi & Hl & Hst & Hlv & Hpe & Hkw & Hsty).
+  intros Hs1 Hs2 Hg (Hi & Hl & Hst & Hlv & Hpe & Hkw & Hsty).
   destruct (at_rule_h_total (to_lower name)) as (h & Hh); [rewrite len_to_lower; eapply lexes_at_len; eassumption|].
   exists h.
   unfold parse_next. cbv zeta. change (prevend (set_buf (set_err p false) [])) with (prevend p). rewrite Hpe.
-  destruct (pop_token_ows (next_fuel p) true (set_buf (set_err p false) []) o1 TAtKeyword name ts Hi Hkw Hl eq_refl (next_fuel_pos p Hi))
+  destruct (pop_token_ows (next_fuel p) true (set_buf (set_err p false) []) o1 TAtKeyword name ts (next_fuel_ok p Hi) Hkw Hl eq_refl (cm_out_no _ _ true (set_buf (set_err p false) []) Hg Hst))
     as (z1 & Hpop & Hl1 & Hi1).
   rewrite Hpop. cbn [pbind fst snd]. cbn [set_tok relex set_err pst set_buf]. rewrite Hst.
   rewrite (at_dispatch s st0 _ _ Hs1 Hs2) by reflexivity.
@@ -1235,25 +1316,25 @@ Proof.
 Qed.
 
 (* an at-rule: at-keyword, prelude tokens, then ';' or the '}' of the enclosing block (AtRule), or '{' (BeginAtRule) *)
-Lemma step_at p s st0 o1 name (pre : list wtok) o2 (tb : tok) ts : s <> SAtRuleUnknown -> s <> SDeclarationList ->
+Lemma step_at p s st0 o1 name (pre : list wtok) o2 (tb : tok) ts : s <> SAtRuleUnknown -> s <> SDeclarationList -> gap_at (s :: st0) o1 ->
   wf_state p (s :: st0) (optws o1 ++ (TAtKeyword, name) :: src_toks pre ++ optws o2 ++ tb :: ts) ->
   toks_ok 0 pre -> lv_after 0 pre = 0 -> (term_ok tb \/ fst tb = TLeftBrace) ->
   exists p', parse_next p = POk (if is_t (fst tb) TLeftBrace then GBeginAtRule else GAtRule, p') /\
     ptt p' = TAtKeyword /\ pdata p' = to_lower name /\ pbuf p' = at_buf true false pre /\ perr p' = false /\
     (if is_t (fst tb) TLeftBrace then wf_state p' (at_st name :: s :: st0) ts else wf_after tb p' (s :: st0) ts).
 Proof.
-  intros Hs1 Hs2 Hw Hok Hlv0 Htb. pose proof Hw as (Hi & Hl & _).
-  destruct (at_head p s st0 o1 name _ Hs1 Hs2 Hw) as (h & p0 & Hh & Hpn & Hi0 & Hl0 & Hb0 & Ht0 & Hd0 & Hst0 & Hlv & Hpe0 & Hkw0 & Hsty0 & Herr0).
+  intros Hs1 Hs2 Hg Hw Hok Hlv0 Htb. pose proof Hw as (Hi & Hl & _).
+  destruct (at_head p s st0 o1 name _ Hs1 Hs2 Hg Hw) as (h & p0 & Hh & Hpn & Hi0 & Hl0 & Hb0 & Ht0 & Hd0 & Hst0 & Hlv & Hpe0 & Hkw0 & Hsty0 & Herr0).
   assert (HN : exists f', next_fuel p = S (length pre + S f')).
   { pose proof (lexes_len _ _ Hi Hl) as Hlen. eapply fuel_split; [exact Hlen|].
     rewrite app_length. cbn [length]. rewrite app_length. rewrite app_length. cbn [length]. pose proof (src_toks_len pre) as Hsl.
     clear - Hsl. unfold wtok, tok in *. lia. }
-  destruct HN as (f' & HN). assert (HF : (1 <= next_fuel p)%nat) by (apply next_fuel_pos; exact Hi).
+  destruct HN as (f' & HN). pose proof (next_fuel_ok p Hi) as HF.
   assert (Hq : forall q, at_rule_loop (next_fuel p) (next_fuel p) q h true false =
                          at_rule_loop (length pre + S (S f')) (next_fuel p) q h true false).
   { intros q. rewrite HN at 1. f_equal. clear. lia. }
   rewrite Hpn, Hq. clear Hq.
-  destruct (at_tokens (next_fuel p) h (optws o2 ++ tb :: ts) HF pre (S (S f')) p0 true false) as (p2 & first' & sk' & Hrun & Hi2 & Hl2 & Hb2 & Hlv2 & Hsm).
+  destruct (at_tokens (next_fuel p) h (optws o2 ++ tb :: ts) pre (S (S f')) p0 true false) as (p2 & first' & sk' & Hrun & Hi2 & Hl2 & Hb2 & Hlv2 & Hsm).
   { exact Hi0. } { exact Hkw0. } { exact Hl0. } { rewrite Hlv. exact Hok. }
   rewrite Hrun. destruct Hsm as (S1 & S2 & S3 & S4 & S5 & S6 & S7).
   assert (Hk2 : keepws p2 = false) by (rewrite S1; exact Hkw0).
@@ -1261,20 +1342,20 @@ Proof.
   destruct Htb as [Hterm|Hlb].
   - assert (Hnlb : is_t (fst tb) TLeftBrace = false) by (destruct tb as [tt bb]; destruct Hterm as [E|E]; cbn [fst] in *; rewrite E; reflexivity).
     rewrite Hnlb.
-    destruct (at_term (S f') (next_fuel p) p2 h o2 tb ts first' sk' Hi2 Hk2 HF Hl20 Hterm Hl2) as (z3 & Hi3 & Hl3 & Heq3).
+    destruct (at_term (S f') (next_fuel p) p2 h o2 tb ts first' sk' Hi2 Hk2 Hl20 Hterm Hl2) as (z3 & Hi3 & Hl3 & Heq3).
     rewrite Heq3. eexists. split; [reflexivity|]. cbn [set_prevend relex ptt pdata pbuf perr].
     split; [rewrite S3; exact Ht0|]. split; [rewrite S4; exact Hd0|]. split; [rewrite Hb2, Hb0; reflexivity|].
     split; [rewrite S5; exact Herr0|].
     unfold wf_after, wf_state, wf_pend. destruct (is_t (fst tb) TRightBrace); cbn [set_prevend relex pl pst plevel prevend keepws isstyle];
-      (split; [exact Hi3|]; split; [exact Hl3|]; split; [rewrite S2; exact Hst0|]; split; [exact Hl20|]; split; [reflexivity|];
+      (split; [exact (proj1 Hi3)|]; split; [exact Hl3|]; split; [rewrite S2; exact Hst0|]; split; [exact Hl20|]; split; [reflexivity|];
        split; [exact Hk2|rewrite S7; exact Hsty0]).
   - destruct tb as [tt bb]. cbn [fst] in *. subst tt. evis.
-    destruct (at_brace (S f') (next_fuel p) p2 h o2 bb ts first' sk' Hi2 Hk2 HF Hl20 Hl2) as (z3 & Hi3 & Hl3 & Heq3).
+    destruct (at_brace (S f') (next_fuel p) p2 h o2 bb ts first' sk' Hi2 Hk2 Hl20 Hl2) as (z3 & Hi3 & Hl3 & Heq3).
     rewrite Heq3. eexists. split; [reflexivity|]. cbn [push_st set_st relex ptt pdata pbuf perr].
     split; [rewrite S3; exact Ht0|]. split; [rewrite S4; exact Hd0|]. split; [rewrite Hb2, Hb0; reflexivity|].
     split; [rewrite S5; exact Herr0|].
     unfold wf_state, at_st. rewrite Hh. cbn [push_st set_st relex pl pst plevel prevend keepws isstyle].
-    split; [exact Hi3|]. split; [exact Hl3|]. split; [rewrite S2, Hst0; reflexivity|]. split; [exact Hl20|]. split; [rewrite S6; exact Hpe0|].
+    split; [exact (proj1 Hi3)|]. split; [exact Hl3|]. split; [rewrite S2, Hst0; reflexivity|]. split; [exact Hl20|]. split; [rewrite S6; exact Hpe0|].
     split; [exact Hk2|rewrite S7; exact Hsty0].
 Qed.
 
@@ -1285,46 +1366,37 @@ Definition wf_unk (p : parser) (lv : Z) (first : bool) (st : list pstate) (toks 
   css_inv (pl p) /\ lexes (pl p) toks /\ pst p = SAtRuleUnknown :: st /\ plevel p = lv /\ prevend p = false /\
   keepws p = negb first /\ isstyle p = true.
 
-Lemma pop_token_kw F allow p t b ts : keepws p = true -> is_t t TComment = false -> css_inv (pl p) ->
-  lexes (pl p) ((t, b) :: ts) ->
-  exists z', pop_token F allow p = POk (t, b, relex p z' false false) /\ lexes z' ts /\ css_inv z'.
-Proof.
-  intros Hkw Hc Hi Hl. destruct (lexes_cons _ _ _ _ Hl) as (z' & Hn & Hl' & _).
-  exists z'. split; [|split; [exact Hl'|eapply css_inv_next; eassumption]].
-  unfold pop_token, lex_next. cbn [set_prevcomment set_prevws pl]. rewrite Hn.
-  cbn [pbind fst snd]. rewrite pop_loop_eq. cbn [set_pl set_prevcomment set_prevws keepws]. rewrite Hkw, Hc. cbn [negb andb orb].
-  destruct p; reflexivity.
-Qed.
-
 (* a token of the block: not a comment (comments are dropped), not the end of input, a closing bracket only inside an
-   open one; the first token is not whitespace, a later one has no skipped whitespace before it *)
+   open one; before it a gap of dropped tokens: for the first token whitespace and comments (and the token itself is not
+   whitespace), for a later one comments only *)
 Definition utok_ok (lv : Z) (first : bool) (w : ws_t) (t : ttype) : Prop :=
   is_t t TComment = false /\ is_t t TError = false /\ (closes t = true -> 0 < lv) /\
-  (if first then is_t t TWhitespace = false else w = None).
+  (if first then is_t t TWhitespace = false else isws w = false).
 
-Lemma step_utok p lv first st w t b ts : wf_unk p lv first st (optws w ++ (t, b) :: ts) -> utok_ok lv first w t ->
+Lemma step_utok p lv first st w t b ts : st <> [] -> wf_unk p lv first st (optws w ++ (t, b) :: ts) -> utok_ok lv first w t ->
   exists p', parse_next p = POk (GToken, p') /\ ptt p' = t /\ pdata p' = b /\ pbuf p' = [] /\ perr p' = false /\
     wf_unk p' (tok_lv lv t) false st ts.
 Proof.
-  intros (Hi & Hl & Hst & Hlv & Hpe & Hkw & Hsty) (Hc & He & Hcl & Hf).
+  intros Hne (Hi & Hl & Hst & Hlv & Hpe & Hkw & Hsty) (Hc & He & Hcl & Hf).
   unfold parse_next. cbv zeta. change (prevend (set_buf (set_err p false) [])) with (prevend p). rewrite Hpe.
-  assert (Hpop : exists z' wf, pop_token (next_fuel p) true (set_buf (set_err p false) []) =
-                   POk (t, b, relex (set_buf (set_err p false) []) z' wf false) /\ lexes z' ts /\ css_inv z').
-  { destruct first; cbn [negb] in Hkw.
-    - assert (Hp : plain_tok t = true) by (unfold plain_tok; rewrite Hf, Hc; reflexivity).
-      destruct (pop_token_ows (next_fuel p) true (set_buf (set_err p false) []) w t b ts Hi Hkw Hl Hp (next_fuel_pos p Hi)) as (z' & H1 & H2 & H3).
-      exists z', (isws w). auto.
-    - subst w. cbn [optws app] in Hl.
-      destruct (pop_token_kw (next_fuel p) true (set_buf (set_err p false) []) t b ts Hkw Hc Hi Hl) as (z' & H1 & H2 & H3).
-      exists z', false. auto. }
-  destruct Hpop as (z' & wf & Hpop & Hl' & Hi'). rewrite Hpop. cbn [pbind fst snd].
+  assert (Hco : cm_out true (set_buf (set_err p false) []) = false).
+  { unfold cm_out. cbn [set_buf set_err pst andb]. rewrite Hst. destruct st; [congruence|]. rewrite !len_cons. pose proof (len_nonneg st). apply Z.eqb_neq. lia. }
+  assert (Hpop : exists z' wf cf, pop_token (next_fuel p) true (set_buf (set_err p false) []) =
+                   POk (t, b, relex (set_buf (set_err p false) []) z' wf cf) /\ lexes z' ts /\ css_inv z').
+  { destruct (pop_token_gap (next_fuel p) true (set_buf (set_err p false) []) w t b ts (next_fuel_ok p Hi) Hl) as (z' & H1 & H2 & H3).
+    - intros Hw. cbn [set_buf set_err keepws]. rewrite Hkw. destruct first; [reflexivity|congruence].
+    - intros _. exact Hco.
+    - cbn [set_buf set_err keepws]. rewrite Hkw. destruct first; cbn [negb andb]; [exact Hf|reflexivity].
+    - intros H. congruence.
+    - exists z', (isws w), (iscm w || is_t t TComment). split; [exact H1|]. split; [exact H2|exact (proj1 H3)]. }
+  destruct Hpop as (z' & wf & cf & Hpop & Hl' & Hi'). rewrite Hpop. cbn [pbind fst snd].
   cbn [set_tok relex set_err set_buf pst]. rewrite Hst.
   unfold parse_at_rule_unknown. cbv zeta. cbn [set_keepws set_tok relex set_err set_buf ptt plevel]. rewrite He, Hlv.
   assert (Hrb : is_t t TRightBrace && (lv =? 0) = false).
   { destruct (is_t t TRightBrace) eqn:E; [|reflexivity]. apply is_t_eq in E. subst t. specialize (Hcl eq_refl). cbn [andb]. lia. }
   rewrite Hrb. cbn [orb].
   eexists. split; [reflexivity|].
-  destruct (adjust_level_f (set_keepws (set_tok (relex (set_buf (set_err p false) []) z' wf false) t b) true) t) as (F1 & _ & _ & F4).
+  destruct (adjust_level_f (set_keepws (set_tok (relex (set_buf (set_err p false) []) z' wf cf) t b) true) t) as (F1 & _ & _ & F4).
   assert (Hsame : forall q, pl (adjust_level q t) = pl q /\ ptt (adjust_level q t) = ptt q /\ pdata (adjust_level q t) = pdata q /\
                             perr (adjust_level q t) = perr q /\ pst (adjust_level q t) = pst q /\ prevend (adjust_level q t) = prevend q /\
                             keepws (adjust_level q t) = keepws q /\ isstyle (adjust_level q t) = isstyle q).
@@ -1336,21 +1408,23 @@ Proof.
   split; [exact Hi'|]. split; [exact Hl'|]. split; [exact Hst|]. split; [rewrite Hlv; reflexivity|]. auto.
 Qed.
 
-Lemma step_uend p first st w3 rb ts : wf_unk p 0 first st (optws w3 ++ (TRightBrace, rb) :: ts) -> (first = false -> w3 = None) ->
+Lemma step_uend p first st w3 rb ts : st <> [] -> wf_unk p 0 first st (optws w3 ++ (TRightBrace, rb) :: ts) -> (first = false -> isws w3 = false) ->
   exists p', parse_next p = POk (GEndAtRule, p') /\ ptt p' = TRightBrace /\ pdata p' = rb /\ pbuf p' = [] /\ perr p' = false /\
     wf_state p' st ts.
 Proof.
-  intros (Hi & Hl & Hst & Hlv & Hpe & Hkw & Hsty) Hf.
+  intros Hne (Hi & Hl & Hst & Hlv & Hpe & Hkw & Hsty) Hf.
   unfold parse_next. cbv zeta. change (prevend (set_buf (set_err p false) [])) with (prevend p). rewrite Hpe.
-  assert (Hpop : exists z' wf, pop_token (next_fuel p) true (set_buf (set_err p false) []) =
-                   POk (TRightBrace, rb, relex (set_buf (set_err p false) []) z' wf false) /\ lexes z' ts /\ css_inv z').
-  { destruct first; cbn [negb] in Hkw.
-    - destruct (pop_token_ows (next_fuel p) true (set_buf (set_err p false) []) w3 TRightBrace rb ts Hi Hkw Hl eq_refl (next_fuel_pos p Hi)) as (z' & H1 & H2 & H3).
-      exists z', (isws w3). auto.
-    - rewrite (Hf eq_refl) in Hl. cbn [optws app] in Hl.
-      destruct (pop_token_kw (next_fuel p) true (set_buf (set_err p false) []) TRightBrace rb ts Hkw eq_refl Hi Hl) as (z' & H1 & H2 & H3).
-      exists z', false. auto. }
-  destruct Hpop as (z' & wf & Hpop & Hl' & Hi'). rewrite Hpop. cbn [pbind fst snd].
+  assert (Hco : cm_out true (set_buf (set_err p false) []) = false).
+  { unfold cm_out. cbn [set_buf set_err pst andb]. rewrite Hst. destruct st; [congruence|]. rewrite !len_cons. pose proof (len_nonneg st). apply Z.eqb_neq. lia. }
+  assert (Hpop : exists z' wf cf, pop_token (next_fuel p) true (set_buf (set_err p false) []) =
+                   POk (TRightBrace, rb, relex (set_buf (set_err p false) []) z' wf cf) /\ lexes z' ts /\ css_inv z').
+  { destruct (pop_token_gap (next_fuel p) true (set_buf (set_err p false) []) w3 TRightBrace rb ts (next_fuel_ok p Hi) Hl) as (z' & H1 & H2 & H3).
+    - intros Hw. cbn [set_buf set_err keepws]. rewrite Hkw. destruct first; [reflexivity|]. rewrite (Hf eq_refl) in Hw. discriminate.
+    - intros _. exact Hco.
+    - apply andb_false_r.
+    - intros H. discriminate H.
+    - exists z', (isws w3), (iscm w3 || is_t TRightBrace TComment). split; [exact H1|]. split; [exact H2|exact (proj1 H3)]. }
+  destruct Hpop as (z' & wf & cf & Hpop & Hl' & Hi'). rewrite Hpop. cbn [pbind fst snd].
   cbn [set_tok relex set_err set_buf pst]. rewrite Hst.
   unfold parse_at_rule_unknown. cbv zeta. cbn [set_keepws set_tok relex set_err set_buf ptt plevel]. rewrite Hlv. evis. cbn [Z.eqb andb orb].
   unfold pop_st. cbn [set_keepws set_tok relex set_err set_buf pst]. rewrite Hst. cbn [pbind].
@@ -1368,13 +1442,13 @@ Definition frame_state (f : frame) : pstate :=
 Definition close_g (f : frame) : gtype := match f with FRule => GEndRuleset | _ => GEndAtRule end.
 
 (* the '}' of a block, read now ... *)
-Lemma step_close p f st0 o rb ts : wf_state p (frame_state f :: st0) (optws o ++ (TRightBrace, rb) :: ts) ->
+Lemma step_close p f st0 o rb ts : gap_at (frame_state f :: st0) o -> wf_state p (frame_state f :: st0) (optws o ++ (TRightBrace, rb) :: ts) ->
   exists p', parse_next p = POk (close_g f, p') /\ ptt p' = TRightBrace /\ pdata p' = rb /\ perr p' = false /\
     wf_state p' st0 ts.
 Proof.
-  intros (Hi & Hl & Hst & Hlv & Hpe & Hkw & Hsty).
+  intros Hg (Hi & Hl & Hst & Hlv & Hpe & Hkw & Hsty).
   unfold parse_next. cbv zeta. change (prevend (set_buf (set_err p false) [])) with (prevend p). rewrite Hpe.
-  destruct (pop_token_ows (next_fuel p) true (set_buf (set_err p false) []) o TRightBrace rb ts Hi Hkw Hl eq_refl (next_fuel_pos p Hi))
+  destruct (pop_token_ows (next_fuel p) true (set_buf (set_err p false) []) o TRightBrace rb ts (next_fuel_ok p Hi) Hkw Hl eq_refl (cm_out_no _ _ true (set_buf (set_err p false) []) Hg Hst))
     as (z' & Hpop & Hl' & Hi').
   rewrite Hpop. cbn [pbind fst snd].
   cbn [set_tok relex set_err pst set_buf]. rewrite Hst.
@@ -1386,7 +1460,7 @@ Proof.
     (eexists; split; [reflexivity|]; cbn [set_st set_tok relex set_err ptt pdata perr set_buf];
      split; [reflexivity|]; split; [reflexivity|]; split; [reflexivity|];
      unfold wf_state; cbn [set_st set_tok relex set_err pl pst plevel prevend keepws isstyle set_buf];
-     split; [exact Hi'|]; split; [exact Hl'|]; auto).
+     split; [exact (proj1 Hi')|]; split; [exact Hl'|]; auto).
 Qed.
 
 (* ... or already read by the previous unit (p.prevEnd): the unit reports the synthesised "}" *)
@@ -1416,7 +1490,7 @@ Record decl_t := mkDecl { d_w1 : ws_t; d_prop : list Z; d_w2 : ws_t; d_vals : li
 (* a stylesheet in document order *)
 Inductive ev :=
   | EDecl (d : decl_t)
-  | EOpen (sel : list wtok) (w2 : ws_t)                (* selector tokens w2 '{' *)
+  | EOpen (nested : bool) (sel : list wtok) (w2 : ws_t) (* selector tokens w2 '{'; nested = inside a declaration block *)
   | EClose (w3 : ws_t)                                   (* w3 '}' of a ruleset *)
   | EComment (w : ws_t) (b : list Z)                     (* a comment at the top level *)
   | EToken (w : ws_t) (t : ttype) (b : list Z)           (* CDO or CDC at the top level *)
@@ -1432,7 +1506,7 @@ Definition decl_toks (d : decl_t) : list tok :=
 Definition ev_toks (e : ev) : list tok :=
   match e with
   | EDecl d => decl_toks d
-  | EOpen sel w2 => src_toks sel ++ optws w2 ++ [(TLeftBrace, [123])]
+  | EOpen _ sel w2 => src_toks sel ++ optws w2 ++ [(TLeftBrace, [123])]
   | EClose w3 => optws w3 ++ [(TRightBrace, [125])]
   | EComment w b => optws w ++ [(TComment, b)]
   | EToken w t b => optws w ++ [(t, b)]
@@ -1444,7 +1518,8 @@ Definition ev_toks (e : ev) : list tok :=
   | EUTok w t b => optws w ++ [(t, b)]
   end.
 
-Definition decl_ok (d : decl_t) : Prop := d_vals d <> [] /\ toks_ok 0 (d_vals d) /\ lv_after 0 (d_vals d) = 0.
+(* the value may be empty ("b:;" is reported as a Declaration without values) *)
+Definition decl_ok (d : decl_t) : Prop := toks_ok 0 (d_vals d) /\ lv_after 0 (d_vals d) = 0.
 (* a selector at the top level / of a nested ruleset *)
 Definition sel_ok (first : tok -> bool) (l : list wtok) : Prop :=
   match l with x :: _ => first (snd x) = true | [] => False end /\ toks_ok 0 l /\ lv_after 0 l = 0.
@@ -1453,12 +1528,15 @@ Definition decl_top (fs : list frame) : Prop := match fs with (FRule | FAtDecls)
 Definition closer (e : ev) : Prop := match e with EClose _ | EEndAtRule _ => True | _ => False end.
 Definition closer_next (r : list ev) : Prop := match r with e :: _ => closer e | [] => False end.
 (* ... directly, without whitespace: whitespace before the '}' would belong to the value of a custom property *)
-Definition closer_tight (r : list ev) : Prop := match r with (EClose None | EEndAtRule None) :: _ => True | _ => False end.
+Definition closer_tight (r : list ev) : Prop := match r with (EClose [] | EEndAtRule []) :: _ => True | _ => False end.
 
 (* fs = the open blocks, innermost first.  Declarations and custom properties inside a ruleset or the block of
    @font-face / @page; rulesets anywhere (nested ones inside such blocks); at-rules anywhere, the kind of their block
    decided by the hash of the name (at_st); comments, CDO and CDC at the top level; a unit without its ';' must be
    followed by the '}' of its block; every '}' closes the innermost block; all closed at the end *)
+(* at the top level a gap has no comment (there a comment is a unit of its own) *)
+Definition top_gap (fs : list frame) (o : ws_t) : Prop := fs = [] -> iscm o = false.
+
 (* m = Some (lv, first) inside the block of an unknown at-rule (bracket level, no token read yet): only tokens and the
    closing '}' at level 0 *)
 Fixpoint evs_okm (m : option (Z * bool)) (fs : list frame) (l : list ev) {struct l} : Prop :=
@@ -1466,23 +1544,25 @@ Fixpoint evs_okm (m : option (Z * bool)) (fs : list frame) (l : list ev) {struct
   | Some (lv, first) =>
       match l with
       | EUTok w t _ :: r => utok_ok lv first w t /\ evs_okm (Some (tok_lv lv t, false)) fs r
-      | EEndAtRule w3 :: r => lv = 0 /\ (first = false -> w3 = None) /\ evs_okm None fs r
+      | EEndAtRule w3 :: r => lv = 0 /\ (first = false -> isws w3 = false) /\ evs_okm None fs r
       | _ => False
       end
   | None =>
   match l with
   | [] => fs = []
   | EDecl d :: r => decl_top fs /\ decl_ok d /\ (d_semi d = false -> closer_next r) /\ evs_okm None fs r
-  | EOpen sel _ :: r =>
-      sel_ok (match fs with (FRule | FAtDecls) :: _ => nest_first | _ => fun x => sel_first (fst x) end) sel /\ evs_okm None (FRule :: fs) r
+  | EOpen nested sel _ :: r =>
+      sel_ok (match fs with (FRule | FAtDecls) :: _ => nest_first | _ => fun x => sel_first (fst x) end) sel /\
+      nested = (match fs with (FRule | FAtDecls) :: _ => true | _ => false end) /\ top_gap fs (match sel with x :: _ => fst x | [] => [] end) /\
+      evs_okm None (FRule :: fs) r
   | EClose _ :: r => match fs with FRule :: fs' => evs_okm None fs' r | _ => False end
-  | EComment _ _ :: r => fs = [] /\ evs_okm None fs r
-  | EToken _ t _ :: r => fs = [] /\ is_cd t = true /\ evs_okm None fs r
-  | ECustom _ _ _ raw semi :: r =>
-      (decl_top fs \/ (fs = [] /\ semi = true)) /\ raw_ok 0 raw /\ raw_lv 0 raw = 0 /\ (semi = false -> closer_tight r) /\ evs_okm None fs r
-  | EAtRule _ _ pre _ semi :: r => toks_ok 0 pre /\ lv_after 0 pre = 0 /\ (semi = false -> fs <> [] /\ closer_next r) /\ evs_okm None fs r
-  | EBeginAtRule _ name pre _ :: r =>
-      toks_ok 0 pre /\ lv_after 0 pre = 0 /\
+  | EComment w _ :: r => fs = [] /\ iscm w = false /\ evs_okm None fs r
+  | EToken w t _ :: r => fs = [] /\ is_cd t = true /\ iscm w = false /\ evs_okm None fs r
+  | ECustom w1 _ _ raw semi :: r =>
+      top_gap fs w1 /\ (decl_top fs \/ (fs = [] /\ semi = true)) /\ raw_ok 0 raw /\ raw_lv 0 raw = 0 /\ (semi = false -> closer_tight r) /\ evs_okm None fs r
+  | EAtRule w1 _ pre _ semi :: r => top_gap fs w1 /\ toks_ok 0 pre /\ lv_after 0 pre = 0 /\ (semi = false -> fs <> [] /\ closer_next r) /\ evs_okm None fs r
+  | EBeginAtRule w1 name pre _ :: r =>
+      top_gap fs w1 /\ toks_ok 0 pre /\ lv_after 0 pre = 0 /\
       match at_st name with
       | SAtRuleRuleList => evs_okm None (FAtRules :: fs) r
       | SAtRuleDeclarationList => evs_okm None (FAtDecls :: fs) r
@@ -1507,7 +1587,7 @@ Definition view (r : gtype * parser) : unit_t :=
 Definition ev_unit (e : ev) : unit_t :=
   match e with
   | EDecl d => (GDeclaration, TIdent, to_lower (d_prop d), expected_vals (d_vals d))
-  | EOpen sel _ => (GBeginRuleset, TWhitespace, [], expected_sel sel)
+  | EOpen nested sel _ => (GBeginRuleset, TWhitespace, [], expected_sel nested sel)
   | EClose _ => (GEndRuleset, TRightBrace, [125], [])
   | EComment _ b => (GComment, TComment, b, [])
   | EToken _ t b => (GToken, t, b, [])
@@ -1537,6 +1617,19 @@ Proof.
     (split; [discriminate|]); (split; [discriminate|]); split; intros H; try contradiction; try (exfalso; apply H; exact I);
     unfold decl_ctx, rule_ctx; auto.
 Qed.
+
+Lemma stack_ne fs : stack fs <> [].
+Proof. unfold stack. destruct (map frame_state fs); discriminate. Qed.
+
+Lemma gap_stack fs o : top_gap fs o -> gap_at (stack fs) o.
+Proof.
+  intros H Hc. destruct fs as [|f fs]; [specialize (H eq_refl); congruence|].
+  unfold stack. cbn [map app]. pose proof (stack_ne fs) as Hn. unfold stack in Hn.
+  destruct (map frame_state fs ++ [SStylesheet]) as [|s2 st]; [congruence|]. rewrite !len_cons. pose proof (len_nonneg st). lia.
+Qed.
+
+Lemma gap_block f fs o : gap_at (stack (f :: fs)) o.
+Proof. apply gap_stack. intros H. discriminate H. Qed.
 
 (* a unit that was ended by the '}' of its block, then the closing unit of that block *)
 Lemma close_pending fs e2 evs' p1 L : closer e2 -> evs_ok fs (e2 :: evs') -> wf_pend p1 (stack fs) L ->
@@ -1587,10 +1680,10 @@ Proof.
   destruct m as [[lv first]|].
   { cbn [wf_m] in Hw. destruct e; try contradiction; cbn [evs_okm] in Hok; cbn [map concat ev_toks] in Hw.
     - destruct Hok as (H0 & Hf & Hok). subst lv. repeat (rewrite <- app_assoc in Hw; cbn [app] in Hw).
-      destruct (step_uend p first _ w3 [125] _ Hw Hf) as (p1 & Hn & Ht & Hdd & Hb & He & Hw1).
+      destruct (step_uend p first _ w3 [125] _ (stack_ne fs) Hw Hf) as (p1 & Hn & Ht & Hdd & Hb & He & Hw1).
       eapply (Hcons _ p1 _ None fs Hn eq_refl He Hw1 Hok). unfold view. cbn [fst snd ev_unit]. rewrite Ht, Hdd. reflexivity.
     - destruct Hok as (Hu & Hok). repeat (rewrite <- app_assoc in Hw; cbn [app] in Hw).
-      destruct (step_utok p lv first _ w t b _ Hw Hu) as (p1 & Hn & Ht & Hdd & Hb & He & Hw1).
+      destruct (step_utok p lv first _ w t b _ (stack_ne fs) Hw Hu) as (p1 & Hn & Ht & Hdd & Hb & He & Hw1).
       eapply (Hcons _ p1 _ (Some (tok_lv lv t, false)) fs Hn eq_refl He Hw1 Hok). unfold view. cbn [fst snd ev_unit]. rewrite Ht, Hdd. reflexivity. }
   cbn [wf_m] in Hw.
   (* the unit is ended by the '}' of its block: two calls *)
@@ -1608,55 +1701,63 @@ Proof.
     - constructor; [exact He|]. constructor; [exact He2|exact Hne].
     - rewrite !last_state_cons. exact Hlast. }
   destruct (stack_top fs) as (s & st0 & Hstk & Hs1 & Hs2 & Hdc & Hrc).
-  destruct e as [[w1 prop w2 vl w4 semi]|sel w2|w3|wc cb|wt tt tb|cw1 cname cw2 craw csemi|aw1 aname apre aw2 asemi|bw1 bname bpre bw2|ew3|uw ut ub];
+  destruct e as [[w1 prop w2 vl w4 semi]|onest sel w2|w3|wc cb|wt tt tb|cw1 cname cw2 craw csemi|aw1 aname apre aw2 asemi|bw1 bname bpre bw2|ew3|uw ut ub];
     cbn [evs_okm] in Hok; cbn [map concat ev_toks] in Hw; [| | | | | | | | |contradiction].
   - (* declaration *)
-    destruct Hok as (Htop & (Hv & Hp & Hq) & Hsemi & Hok). cbn [d_vals d_semi] in *. specialize (Hdc Htop). rewrite Hstk in Hw.
+    destruct Hok as (Htop & (Hp & Hq) & Hsemi & Hok). cbn [d_vals d_semi] in *. specialize (Hdc Htop).
+    assert (Hg : gap_at (s :: st0) w1) by (rewrite <- Hstk; apply gap_stack; intros E; subst fs; contradiction).
+    rewrite Hstk in Hw.
     unfold decl_toks, term_toks in Hw. cbn [d_w1 d_prop d_w2 d_vals d_w4 d_semi] in Hw. destruct semi.
     + repeat (rewrite <- app_assoc in Hw; cbn [app] in Hw).
-      destruct (step_decl p s st0 w1 prop w2 [58] vl w4 (TSemicolon, [59]) _ Hdc (or_introl eq_refl) Hw Hv Hp Hq) as (p1 & Hn & Ht & Hdd & Hb & He & Hw1).
+      destruct (step_decl p s st0 w1 prop w2 [58] vl w4 (TSemicolon, [59]) _ Hdc Hg (or_introl eq_refl) Hw Hp Hq) as (p1 & Hn & Ht & Hdd & Hb & He & Hw1).
       unfold wf_after in Hw1. cbn [fst] in Hw1. change (is_t TSemicolon TRightBrace) with false in Hw1. cbv beta iota in Hw1. rewrite <- Hstk in Hw1.
       eapply (Hcons _ p1 _ None fs Hn eq_refl He Hw1 Hok). unfold view. cbn [fst snd ev_unit d_prop d_vals]. rewrite Ht, Hdd, Hb. reflexivity.
     + specialize (Hsemi eq_refl). destruct evs as [|e2 evs']; [contradiction|]. cbn [closer_next] in Hsemi.
       destruct (closer_toks e2 Hsemi) as (w3 & Ew3). cbn [map concat] in Hw. rewrite Ew3 in Hw.
       repeat (rewrite <- app_assoc in Hw; cbn [app] in Hw).
-      destruct (step_decl p s st0 w1 prop w2 [58] vl w3 (TRightBrace, [125]) _ Hdc (or_intror eq_refl) Hw Hv Hp Hq) as (p1 & Hn & Ht & Hdd & Hb & He & Hw1).
+      destruct (step_decl p s st0 w1 prop w2 [58] vl w3 (TRightBrace, [125]) _ Hdc Hg (or_intror eq_refl) Hw Hp Hq) as (p1 & Hn & Ht & Hdd & Hb & He & Hw1).
       unfold wf_after in Hw1. cbn [fst] in Hw1. change (is_t TRightBrace TRightBrace) with true in Hw1. cbv beta iota in Hw1. rewrite <- Hstk in Hw1.
       eapply (Hcons2 _ p1 e2 evs' eq_refl Hsemi Hn); [|exact He|exact Hw1|exact Hok].
       unfold view. cbn [fst snd ev_unit d_prop d_vals]. rewrite Ht, Hdd, Hb. reflexivity.
   - (* ruleset *)
-    destruct Hok as ((Hf1 & Hf2 & Hf3) & Hok). destruct sel as [|[o1 [t1 b1]] sl]; [contradiction|]. cbn [fst snd] in Hf1.
+    destruct Hok as ((Hf1 & Hf2 & Hf3) & Hnest & Htg & Hok). destruct sel as [|[o1 [t1 b1]] sl]; [contradiction|]. cbn [fst snd] in Hf1, Htg.
+    assert (Hg : gap_at (s :: st0) o1) by (rewrite <- Hstk; apply gap_stack; exact Htg).
     repeat (rewrite <- app_assoc in Hw; cbn [app] in Hw). rewrite Hstk in Hw.
     assert (Hcase : decl_top fs \/ ~ decl_top fs) by (destruct fs as [|[| |] fs0]; cbn [decl_top]; auto).
     destruct Hcase as [Htop|Htop].
     + assert (Hnf : nest_first (t1, b1) = true) by (destruct fs as [|[| |] fs0]; cbn [decl_top] in Htop; try contradiction; exact Hf1).
-      destruct (step_nested p s st0 o1 t1 b1 sl w2 [123] _ (Hdc Htop) Hw Hnf Hf2 Hf3) as (p1 & Hn & Ht & Hdd & Hb & He & Hw1).
+      assert (Hon : onest = true) by (rewrite Hnest; destruct fs as [|[| |] fs0]; cbn [decl_top] in Htop; try contradiction; reflexivity).
+      clear Hnest. subst onest.
+      destruct (step_nested p s st0 o1 t1 b1 sl w2 [123] _ (Hdc Htop) Hg Hw Hnf Hf2 Hf3) as (p1 & Hn & Ht & Hdd & Hb & He & Hw1).
       rewrite <- Hstk in Hw1. change (SQualifiedRuleDeclarationList :: stack fs) with (stack (FRule :: fs)) in Hw1.
       eapply (Hcons _ p1 _ None (FRule :: fs) Hn eq_refl He Hw1 Hok). unfold view. cbn [fst snd ev_unit]. rewrite Ht, Hdd, Hb. reflexivity.
     + assert (Hsf : sel_first t1 = true) by (destruct fs as [|[| |] fs0]; cbn [decl_top] in Htop; try (exfalso; apply Htop; exact I); exact Hf1).
-      destruct (step_begin p s st0 o1 t1 b1 sl w2 [123] _ (Hrc Htop) Hw Hsf Hf2 Hf3) as (p1 & Hn & Ht & Hdd & Hb & He & Hw1).
+      assert (Hon : onest = false) by (rewrite Hnest; destruct fs as [|[| |] fs0]; cbn [decl_top] in Htop; try (exfalso; apply Htop; exact I); reflexivity).
+      clear Hnest. subst onest.
+      destruct (step_begin p s st0 o1 t1 b1 sl w2 [123] _ (Hrc Htop) Hg Hw Hsf Hf2 Hf3) as (p1 & Hn & Ht & Hdd & Hb & He & Hw1).
       rewrite <- Hstk in Hw1. change (SQualifiedRuleDeclarationList :: stack fs) with (stack (FRule :: fs)) in Hw1.
       eapply (Hcons _ p1 _ None (FRule :: fs) Hn eq_refl He Hw1 Hok). unfold view. cbn [fst snd ev_unit]. rewrite Ht, Hdd, Hb. reflexivity.
   - (* '}' of a ruleset *)
     destruct fs as [|[| |] fs]; try contradiction. unfold stack in Hw. cbn [map app] in Hw.
     repeat (rewrite <- app_assoc in Hw; cbn [app] in Hw).
-    destruct (step_close p FRule _ w3 [125] _ Hw) as (p1 & Hn & Ht & Hdd & He & Hw1).
+    destruct (step_close p FRule _ w3 [125] _ (gap_block FRule fs w3) Hw) as (p1 & Hn & Ht & Hdd & He & Hw1).
     eapply (Hcons _ p1 _ None fs Hn eq_refl He Hw1 Hok). unfold view. cbn [fst snd ev_unit close_g]. rewrite Ht, Hdd. reflexivity.
-  - destruct Hok as (Hd & Hok). subst fs. unfold stack in Hw. cbn [map app] in Hw.
+  - destruct Hok as (Hd & Hnc & Hok). subst fs. unfold stack in Hw. cbn [map app] in Hw.
     repeat (rewrite <- app_assoc in Hw; cbn [app] in Hw).
-    destruct (step_comment p wc cb _ Hw) as (p1 & Hn & Ht & Hdd & He & Hw1).
+    destruct (step_comment p wc cb _ Hw Hnc) as (p1 & Hn & Ht & Hdd & He & Hw1).
     eapply (Hcons _ p1 _ None [] Hn eq_refl He Hw1 Hok). unfold view. cbn [fst snd ev_unit]. rewrite Ht, Hdd. reflexivity.
-  - destruct Hok as (Hd & Hcd & Hok). subst fs. unfold stack in Hw. cbn [map app] in Hw.
+  - destruct Hok as (Hd & Hcd & Hnc & Hok). subst fs. unfold stack in Hw. cbn [map app] in Hw.
     repeat (rewrite <- app_assoc in Hw; cbn [app] in Hw).
-    destruct (step_cd p wt tt tb _ Hw Hcd) as (p1 & Hn & Ht & Hdd & He & Hw1).
+    destruct (step_cd p wt tt tb _ Hw Hcd Hnc) as (p1 & Hn & Ht & Hdd & He & Hw1).
     eapply (Hcons _ p1 _ None [] Hn eq_refl He Hw1 Hok). unfold view. cbn [fst snd ev_unit]. rewrite Ht, Hdd. reflexivity.
   - (* custom property *)
-    destruct Hok as (Htop & Hr1 & Hr2 & Hsemi & Hok).
+    destruct Hok as (Htg & Htop & Hr1 & Hr2 & Hsemi & Hok).
+    assert (Hg : gap_at (s :: st0) cw1) by (rewrite <- Hstk; apply gap_stack; exact Htg).
     assert (Hcc : custom_ctx s).
     { destruct Htop as [Htop|(-> & _)]; [left; exact (Hdc Htop)|]. right. unfold stack in Hstk. cbn [map app] in Hstk. congruence. }
     clear Hdc. rename Hcc into Hdc. rewrite Hstk in Hw. destruct csemi.
     + repeat (rewrite <- app_assoc in Hw; cbn [app] in Hw).
-      destruct (step_custom p s st0 cw1 cname cw2 [58] craw (TSemicolon, [59]) _ Hdc (or_introl eq_refl) Hw Hr1 Hr2) as (p1 & Hn & Ht & Hdd & Hb & He & Hw1).
+      destruct (step_custom p s st0 cw1 cname cw2 [58] craw (TSemicolon, [59]) _ Hdc Hg (or_introl eq_refl) Hw Hr1 Hr2) as (p1 & Hn & Ht & Hdd & Hb & He & Hw1).
       unfold wf_after in Hw1. cbn [fst] in Hw1. change (is_t TSemicolon TRightBrace) with false in Hw1. cbv beta iota in Hw1. rewrite <- Hstk in Hw1.
       eapply (Hcons _ p1 _ None fs Hn eq_refl He Hw1 Hok). unfold view. cbn [fst snd ev_unit]. rewrite Ht, Hdd, Hb. reflexivity.
     + specialize (Hsemi eq_refl). destruct evs as [|e2 evs']; [contradiction|].
@@ -1664,29 +1765,33 @@ Proof.
       { cbn [closer_tight] in Hsemi. destruct e2 as [| | [|] | | | | | | [|] |]; try contradiction; split; try exact I; reflexivity. }
       destruct Hcl as (Hcl & Ew3). cbn [map concat] in Hw. rewrite Ew3 in Hw.
       repeat (rewrite <- app_assoc in Hw; cbn [app] in Hw).
-      destruct (step_custom p s st0 cw1 cname cw2 [58] craw (TRightBrace, [125]) _ Hdc (or_intror eq_refl) Hw Hr1 Hr2) as (p1 & Hn & Ht & Hdd & Hb & He & Hw1).
+      destruct (step_custom p s st0 cw1 cname cw2 [58] craw (TRightBrace, [125]) _ Hdc Hg (or_intror eq_refl) Hw Hr1 Hr2) as (p1 & Hn & Ht & Hdd & Hb & He & Hw1).
       unfold wf_after in Hw1. cbn [fst] in Hw1. change (is_t TRightBrace TRightBrace) with true in Hw1. cbv beta iota in Hw1. rewrite <- Hstk in Hw1.
       eapply (Hcons2 _ p1 e2 evs' eq_refl Hcl Hn); [|exact He|exact Hw1|exact Hok].
       unfold view. cbn [fst snd ev_unit]. rewrite Ht, Hdd, Hb. reflexivity.
   - (* at-rule without block *)
-    destruct Hok as (Hp1 & Hp2 & Hsemi & Hok). rewrite Hstk in Hw. unfold term_toks in Hw. destruct asemi.
+    destruct Hok as (Htg & Hp1 & Hp2 & Hsemi & Hok).
+    assert (Hg : gap_at (s :: st0) aw1) by (rewrite <- Hstk; apply gap_stack; exact Htg).
+    rewrite Hstk in Hw. unfold term_toks in Hw. destruct asemi.
     + repeat (rewrite <- app_assoc in Hw; cbn [app] in Hw).
-      destruct (step_at p s st0 aw1 aname apre aw2 (TSemicolon, [59]) _ Hs1 Hs2 Hw Hp1 Hp2 (or_introl (or_introl eq_refl))) as (p1 & Hn & Ht & Hdd & Hb & He & Hw1).
+      destruct (step_at p s st0 aw1 aname apre aw2 (TSemicolon, [59]) _ Hs1 Hs2 Hg Hw Hp1 Hp2 (or_introl (or_introl eq_refl))) as (p1 & Hn & Ht & Hdd & Hb & He & Hw1).
       cbn [fst] in Hn, Hw1. change (is_t TSemicolon TLeftBrace) with false in Hn, Hw1. cbv beta iota in Hn, Hw1.
       unfold wf_after in Hw1. cbn [fst] in Hw1. change (is_t TSemicolon TRightBrace) with false in Hw1. cbv beta iota in Hw1. rewrite <- Hstk in Hw1.
       eapply (Hcons _ p1 _ None fs Hn eq_refl He Hw1 Hok). unfold view. cbn [fst snd ev_unit]. rewrite Ht, Hdd, Hb. reflexivity.
     + destruct (Hsemi eq_refl) as (Hfs & Hcn). destruct evs as [|e2 evs']; [contradiction|]. cbn [closer_next] in Hcn.
       destruct (closer_toks e2 Hcn) as (w3 & Ew3). cbn [map concat] in Hw. rewrite Ew3 in Hw.
       repeat (rewrite <- app_assoc in Hw; cbn [app] in Hw).
-      destruct (step_at p s st0 aw1 aname apre w3 (TRightBrace, [125]) _ Hs1 Hs2 Hw Hp1 Hp2 (or_introl (or_intror eq_refl))) as (p1 & Hn & Ht & Hdd & Hb & He & Hw1).
+      destruct (step_at p s st0 aw1 aname apre w3 (TRightBrace, [125]) _ Hs1 Hs2 Hg Hw Hp1 Hp2 (or_introl (or_intror eq_refl))) as (p1 & Hn & Ht & Hdd & Hb & He & Hw1).
       cbn [fst] in Hn, Hw1. change (is_t TRightBrace TLeftBrace) with false in Hn, Hw1. cbv beta iota in Hn, Hw1.
       unfold wf_after in Hw1. cbn [fst] in Hw1. change (is_t TRightBrace TRightBrace) with true in Hw1. cbv beta iota in Hw1. rewrite <- Hstk in Hw1.
       eapply (Hcons2 _ p1 e2 evs' eq_refl Hcn Hn); [|exact He|exact Hw1|exact Hok].
       unfold view. cbn [fst snd ev_unit]. rewrite Ht, Hdd, Hb. reflexivity.
   - (* at-rule with block *)
-    destruct Hok as (Hp1 & Hp2 & Hok). rewrite Hstk in Hw.
+    destruct Hok as (Htg & Hp1 & Hp2 & Hok).
+    assert (Hg : gap_at (s :: st0) bw1) by (rewrite <- Hstk; apply gap_stack; exact Htg).
+    rewrite Hstk in Hw.
     repeat (rewrite <- app_assoc in Hw; cbn [app] in Hw).
-    destruct (step_at p s st0 bw1 bname bpre bw2 (TLeftBrace, [123]) _ Hs1 Hs2 Hw Hp1 Hp2 (or_intror eq_refl)) as (p1 & Hn & Ht & Hdd & Hb & He & Hw1).
+    destruct (step_at p s st0 bw1 bname bpre bw2 (TLeftBrace, [123]) _ Hs1 Hs2 Hg Hw Hp1 Hp2 (or_intror eq_refl)) as (p1 & Hn & Ht & Hdd & Hb & He & Hw1).
     cbn [fst] in Hn, Hw1. change (is_t TLeftBrace TLeftBrace) with true in Hn, Hw1. cbv beta iota in Hn, Hw1. rewrite <- Hstk in Hw1.
     destruct (at_st bname) eqn:Est; try contradiction.
     + change (SAtRuleRuleList :: stack fs) with (stack (FAtRules :: fs)) in Hw1.
@@ -1698,9 +1803,9 @@ Proof.
   - (* '}' of an at-rule block *)
     destruct fs as [|[| |] fs]; try contradiction; unfold stack in Hw; cbn [map app] in Hw;
       repeat (rewrite <- app_assoc in Hw; cbn [app] in Hw).
-    + destruct (step_close p FAtRules _ ew3 [125] _ Hw) as (p1 & Hn & Ht & Hdd & He & Hw1).
+    + destruct (step_close p FAtRules _ ew3 [125] _ (gap_block FAtRules fs ew3) Hw) as (p1 & Hn & Ht & Hdd & He & Hw1).
       eapply (Hcons _ p1 _ None fs Hn eq_refl He Hw1 Hok). unfold view. cbn [fst snd ev_unit close_g]. rewrite Ht, Hdd. reflexivity.
-    + destruct (step_close p FAtDecls _ ew3 [125] _ Hw) as (p1 & Hn & Ht & Hdd & He & Hw1).
+    + destruct (step_close p FAtDecls _ ew3 [125] _ (gap_block FAtDecls fs ew3) Hw) as (p1 & Hn & Ht & Hdd & He & Hw1).
       eapply (Hcons _ p1 _ None fs Hn eq_refl He Hw1 Hok). unfold view. cbn [fst snd ev_unit close_g]. rewrite Ht, Hdd. reflexivity.
 Qed.
 
@@ -1724,16 +1829,16 @@ Qed.
    Declaration (lower-cased property name, expected_vals), EndRuleset - and then the end-of-input report; no parse
    error is reported. *)
 Lemma cssparse_wellformed_proof : forall d evs w,
-  css_lex d = LexDone (concat (map ev_toks evs) ++ optws w) -> evs_ok [] evs ->
+  css_lex d = LexDone (concat (map ev_toks evs) ++ optws w) -> evs_ok [] evs -> iscm w = false ->
   exists tr, parse_run (length evs + 1) (new_parser d false) = POk tr /\
     map view tr = map ev_unit evs ++ [(GError, TError, [], [])] /\ no_err tr.
 Proof.
-  intros d evs w Hlex Hok.
+  intros d evs w Hlex Hok Hnc.
   assert (Hw : wf_state (new_parser d false) (stack []) (concat (map ev_toks evs) ++ optws w)).
   { unfold wf_state, stack. cbn [map app new_parser pl pst plevel prevend keepws isstyle negb]. split; [apply css_inv_init|].
     split; [exists (S (length d)); exact Hlex|]. auto. }
   destruct (evs_run evs _ _ _ Hw Hok) as (tr & Hrun & Hview & Hne & Hw').
-  destruct (step_eof _ _ Hw') as (p' & Hn & He & Ht).
+  destruct (step_eof _ _ Hw' Hnc) as (p' & Hn & He & Ht).
   exists (tr ++ [(GError, p')]). split; [|split].
   - apply parse_run_snoc; assumption.
   - rewrite map_app, Hview. cbn [map]. unfold view. cbn [fst snd]. rewrite Ht. reflexivity.
@@ -1742,40 +1847,40 @@ Qed.
 
 (* "a{B:1;c:x;}d{}" *)
 Example wellformed_example :
-  let evs := [EOpen [(None, (TIdent, [97]))] None; EDecl (mkDecl None [66] None [(None, (TNumber, [49]))] None true);
-              EDecl (mkDecl None [99] None [(None, (TIdent, [120]))] None true); EClose None;
-              EOpen [(None, (TIdent, [100]))] None; EClose None] in
-  css_lex [97; 123; 66; 58; 49; 59; 99; 58; 120; 59; 125; 100; 123; 125] = LexDone (concat (map ev_toks evs) ++ optws None) /\
+  let evs := [EOpen false [([], (TIdent, [97]))] []; EDecl (mkDecl [] [66] [] [([], (TNumber, [49]))] [] true);
+              EDecl (mkDecl [] [99] [] [([], (TIdent, [120]))] [] true); EClose [];
+              EOpen false [([], (TIdent, [100]))] []; EClose []] in
+  css_lex [97; 123; 66; 58; 49; 59; 99; 58; 120; 59; 125; 100; 123; 125] = LexDone (concat (map ev_toks evs) ++ optws []) /\
   evs_ok [] evs.
 Proof.
   cbv zeta. split; [vm_compute; reflexivity|].
-  repeat (first [discriminate | reflexivity | lia | left; exact I | split]).
+  repeat (first [discriminate | reflexivity | lia | left; exact I | split | exact I | vm_compute; reflexivity | intros _ | intros ?]).
 Qed.
 
 (* " a {\n B : 1 ;c:x; }\nd{}\n" *)
 Example wellformed_example_ws :
-  let evs := [EOpen [(Some [32], (TIdent, [97]))] (Some [32]);
-              EDecl (mkDecl (Some [10; 32]) [66] (Some [32]) [(Some [32], (TNumber, [49]))] (Some [32]) true);
-              EDecl (mkDecl None [99] None [(None, (TIdent, [120]))] None true); EClose (Some [32]);
-              EOpen [(Some [10], (TIdent, [100]))] None; EClose None] in
+  let evs := [EOpen false [([(false, [32])], (TIdent, [97]))] ([(false, [32])]);
+              EDecl (mkDecl ([(false, [10; 32])]) [66] ([(false, [32])]) [([(false, [32])], (TNumber, [49]))] ([(false, [32])]) true);
+              EDecl (mkDecl [] [99] [] [([], (TIdent, [120]))] [] true); EClose ([(false, [32])]);
+              EOpen false [([(false, [10])], (TIdent, [100]))] []; EClose []] in
   css_lex [32; 97; 32; 123; 10; 32; 66; 32; 58; 32; 49; 32; 59; 99; 58; 120; 59; 32; 125; 10; 100; 123; 125; 10] =
-    LexDone (concat (map ev_toks evs) ++ optws (Some [10])) /\
+    LexDone (concat (map ev_toks evs) ++ optws ([(false, [10])])) /\
   evs_ok [] evs.
 Proof.
   cbv zeta. split; [vm_compute; reflexivity|].
-  repeat (first [discriminate | reflexivity | lia | left; exact I | split]).
+  repeat (first [discriminate | reflexivity | lia | left; exact I | split | exact I | vm_compute; reflexivity | intros _ | intros ?]).
 Qed.
 
 (* "a{b: 1px  solid , red ;c:rgb(1, 2)}" : Values() = [1px " " solid , red] and [rgb( 1 , 2 )] *)
 Example wellformed_example_values :
-  let evs := [EOpen [(None, (TIdent, [97]))] None;
-              EDecl (mkDecl None [98] None [(Some [32], (TDimension, [49; 112; 120])); (Some [32; 32], (TIdent, [115; 111; 108; 105; 100]));
-                                            (Some [32], (TComma, [44])); (Some [32], (TIdent, [114; 101; 100]))] (Some [32]) true);
-              EDecl (mkDecl None [99] None [(None, (TFunction, [114; 103; 98; 40])); (None, (TNumber, [49])); (None, (TComma, [44]));
-                                            (Some [32], (TNumber, [50])); (None, (TRightParenthesis, [41]))] None true);
-              EClose None] in
+  let evs := [EOpen false [([], (TIdent, [97]))] [];
+              EDecl (mkDecl [] [98] [] [([(false, [32])], (TDimension, [49; 112; 120])); ([(false, [32; 32])], (TIdent, [115; 111; 108; 105; 100]));
+                                            ([(false, [32])], (TComma, [44])); ([(false, [32])], (TIdent, [114; 101; 100]))] ([(false, [32])]) true);
+              EDecl (mkDecl [] [99] [] [([], (TFunction, [114; 103; 98; 40])); ([], (TNumber, [49])); ([], (TComma, [44]));
+                                            ([(false, [32])], (TNumber, [50])); ([], (TRightParenthesis, [41]))] [] true);
+              EClose []] in
   css_lex [97; 123; 98; 58; 32; 49; 112; 120; 32; 32; 115; 111; 108; 105; 100; 32; 44; 32; 114; 101; 100; 32; 59;
-           99; 58; 114; 103; 98; 40; 49; 44; 32; 50; 41; 59; 125] = LexDone (concat (map ev_toks evs) ++ optws None) /\
+           99; 58; 114; 103; 98; 40; 49; 44; 32; 50; 41; 59; 125] = LexDone (concat (map ev_toks evs) ++ optws []) /\
   evs_ok [] evs /\
   map ev_unit evs =
     [(GBeginRuleset, TWhitespace, [], [(TIdent, [97])]);
@@ -1784,33 +1889,33 @@ Example wellformed_example_values :
      (GEndRuleset, TRightBrace, [125], [])].
 Proof.
   cbv zeta. split; [vm_compute; reflexivity|]. split; [|vm_compute; reflexivity].
-  repeat (first [discriminate | reflexivity | lia | left; exact I | split]).
+  repeat (first [discriminate | reflexivity | lia | left; exact I | split | exact I | vm_compute; reflexivity | intros _ | intros ?]).
 Qed.
 
 (* "a > b  c,d [ x=y ] e{}" : Values() of BeginRuleset = a > b " " c , d " " [ x = y ] " " e *)
 Example wellformed_example_selector :
-  let sel := [(None, (TIdent, [97])); (Some [32], (TDelim, [62])); (Some [32], (TIdent, [98])); (Some [32; 32], (TIdent, [99]));
-              (None, (TComma, [44])); (None, (TIdent, [100])); (Some [32], (TLeftBracket, [91])); (Some [32], (TIdent, [120]));
-              (None, (TDelim, [61])); (None, (TIdent, [121])); (Some [32], (TRightBracket, [93])); (Some [32], (TIdent, [101]))] in
-  let evs := [EOpen sel None; EClose None] in
+  let sel := [([], (TIdent, [97])); ([(false, [32])], (TDelim, [62])); ([(false, [32])], (TIdent, [98])); ([(false, [32; 32])], (TIdent, [99]));
+              ([], (TComma, [44])); ([], (TIdent, [100])); ([(false, [32])], (TLeftBracket, [91])); ([(false, [32])], (TIdent, [120]));
+              ([], (TDelim, [61])); ([], (TIdent, [121])); ([(false, [32])], (TRightBracket, [93])); ([(false, [32])], (TIdent, [101]))] in
+  let evs := [EOpen false sel []; EClose []] in
   css_lex [97; 32; 62; 32; 98; 32; 32; 99; 44; 100; 32; 91; 32; 120; 61; 121; 32; 93; 32; 101; 123; 125] =
-    LexDone (concat (map ev_toks evs) ++ optws None) /\
+    LexDone (concat (map ev_toks evs) ++ optws []) /\
   evs_ok [] evs /\
-  expected_sel sel = [(TIdent, [97]); (TDelim, [62]); (TIdent, [98]); sp; (TIdent, [99]); (TComma, [44]); (TIdent, [100]); sp;
+  expected_sel false sel = [(TIdent, [97]); (TDelim, [62]); (TIdent, [98]); sp; (TIdent, [99]); (TComma, [44]); (TIdent, [100]); sp;
                       (TLeftBracket, [91]); (TIdent, [120]); (TDelim, [61]); (TIdent, [121]); (TRightBracket, [93]); sp; (TIdent, [101])].
 Proof.
   cbv zeta. split; [vm_compute; reflexivity|]. split; [|vm_compute; reflexivity].
-  repeat (first [discriminate | reflexivity | lia | left; exact I | split]).
+  repeat (first [discriminate | reflexivity | lia | left; exact I | split | exact I | vm_compute; reflexivity | intros _ | intros ?]).
 Qed.
 
 (* "a{b , c d{e:f;}g:h;}" : a nested ruleset; its selector is compacted like a top-level one: b , c " " d *)
 Example wellformed_example_nested :
-  let evs := [EOpen [(None, (TIdent, [97]))] None;
-              EOpen [(None, (TIdent, [98])); (Some [32], (TComma, [44])); (Some [32], (TIdent, [99])); (Some [32], (TIdent, [100]))] None;
-              EDecl (mkDecl None [101] None [(None, (TIdent, [102]))] None true); EClose None;
-              EDecl (mkDecl None [103] None [(None, (TIdent, [104]))] None true); EClose None] in
+  let evs := [EOpen false [([], (TIdent, [97]))] [];
+              EOpen true [([], (TIdent, [98])); ([(false, [32])], (TComma, [44])); ([(false, [32])], (TIdent, [99])); ([(false, [32])], (TIdent, [100]))] [];
+              EDecl (mkDecl [] [101] [] [([], (TIdent, [102]))] [] true); EClose [];
+              EDecl (mkDecl [] [103] [] [([], (TIdent, [104]))] [] true); EClose []] in
   css_lex [97; 123; 98; 32; 44; 32; 99; 32; 100; 123; 101; 58; 102; 59; 125; 103; 58; 104; 59; 125] =
-    LexDone (concat (map ev_toks evs) ++ optws None) /\
+    LexDone (concat (map ev_toks evs) ++ optws []) /\
   evs_ok [] evs /\
   map ev_unit evs =
     [(GBeginRuleset, TWhitespace, [], [(TIdent, [97])]);
@@ -1819,7 +1924,7 @@ Example wellformed_example_nested :
      (GDeclaration, TIdent, [103], [(TIdent, [104])]); (GEndRuleset, TRightBrace, [125], [])].
 Proof.
   cbv zeta. split; [vm_compute; reflexivity|]. split; [|vm_compute; reflexivity].
-  repeat (first [discriminate | reflexivity | lia | left; exact I | split]).
+  repeat (first [discriminate | reflexivity | lia | left; exact I | split | exact I | vm_compute; reflexivity | intros _ | intros ?]).
 Qed.
 
 (* "<!-- /*c*/a{--x: 1 /*k*/ (;) ;&.b{}}-->" : a CDO, a top-level comment, a custom property whose value is the exact source
@@ -1827,12 +1932,12 @@ Qed.
 Example wellformed_example_misc :
   let raw := [(TWhitespace, [32]); (TNumber, [49]); (TWhitespace, [32]); (TComment, [47; 42; 107; 42; 47]); (TWhitespace, [32]);
               (TLeftParenthesis, [40]); (TSemicolon, [59]); (TRightParenthesis, [41]); (TWhitespace, [32])] in
-  let evs := [EToken None TCDO [60; 33; 45; 45]; EComment (Some [32]) [47; 42; 99; 42; 47];
-              EOpen [(None, (TIdent, [97]))] None; ECustom None [45; 45; 120] None raw true;
-              EOpen [(None, (TDelim, [38])); (None, (TDelim, [46])); (None, (TIdent, [98]))] None; EClose None; EClose None;
-              EToken None TCDC [45; 45; 62]] in
+  let evs := [EToken [] TCDO [60; 33; 45; 45]; EComment ([(false, [32])]) [47; 42; 99; 42; 47];
+              EOpen false [([], (TIdent, [97]))] []; ECustom [] [45; 45; 120] [] raw true;
+              EOpen true [([], (TDelim, [38])); ([], (TDelim, [46])); ([], (TIdent, [98]))] []; EClose []; EClose [];
+              EToken [] TCDC [45; 45; 62]] in
   css_lex [60; 33; 45; 45; 32; 47; 42; 99; 42; 47; 97; 123; 45; 45; 120; 58; 32; 49; 32; 47; 42; 107; 42; 47; 32; 40; 59; 41; 32; 59;
-           38; 46; 98; 123; 125; 125; 45; 45; 62] = LexDone (concat (map ev_toks evs) ++ optws None) /\
+           38; 46; 98; 123; 125; 125; 45; 45; 62] = LexDone (concat (map ev_toks evs) ++ optws []) /\
   evs_ok [] evs /\
   map ev_unit evs =
     [(GToken, TCDO, [60; 33; 45; 45], []); (GComment, TComment, [47; 42; 99; 42; 47], []);
@@ -1842,24 +1947,24 @@ Example wellformed_example_misc :
      (GEndRuleset, TRightBrace, [125], []); (GEndRuleset, TRightBrace, [125], []); (GToken, TCDC, [45; 45; 62], [])].
 Proof.
   cbv zeta. split; [vm_compute; reflexivity|]. split; [|vm_compute; reflexivity].
-  repeat (first [discriminate | reflexivity | lia | left; exact I | split]).
+  repeat (first [discriminate | reflexivity | lia | left; exact I | split | exact I | vm_compute; reflexivity | intros _ | intros ?]).
 Qed.
 
 (* "@import url(x) s;@MEDIA (m:1px) and (x: y),p{a{b:c;}}" : the prelude keeps the whitespace after the at-keyword and between
    words, drops it after '(' , before ')' and around ':' and ','; @MEDIA is lower-cased and hashes to Media (a rule block) *)
 Example wellformed_example_at :
-  let pre1 := [(Some [32], (TURL, [117; 114; 108; 40; 120; 41])); (Some [32], (TIdent, [115]))] in
-  let pre2 := [(Some [32], (TLeftParenthesis, [40])); (None, (TIdent, [109])); (None, (TColon, [58])); (None, (TDimension, [49; 112; 120]));
-               (None, (TRightParenthesis, [41])); (Some [32], (TIdent, [97; 110; 100])); (Some [32], (TLeftParenthesis, [40]));
-               (None, (TIdent, [120])); (None, (TColon, [58])); (Some [32], (TIdent, [121])); (None, (TRightParenthesis, [41]));
-               (None, (TComma, [44])); (None, (TIdent, [112]))] in
-  let evs := [EAtRule None [64; 105; 109; 112; 111; 114; 116] pre1 None true;
-              EBeginAtRule None [64; 77; 69; 68; 73; 65] pre2 None;
-              EOpen [(None, (TIdent, [97]))] None; EDecl (mkDecl None [98] None [(None, (TIdent, [99]))] None true); EClose None;
-              EEndAtRule None] in
+  let pre1 := [([(false, [32])], (TURL, [117; 114; 108; 40; 120; 41])); ([(false, [32])], (TIdent, [115]))] in
+  let pre2 := [([(false, [32])], (TLeftParenthesis, [40])); ([], (TIdent, [109])); ([], (TColon, [58])); ([], (TDimension, [49; 112; 120]));
+               ([], (TRightParenthesis, [41])); ([(false, [32])], (TIdent, [97; 110; 100])); ([(false, [32])], (TLeftParenthesis, [40]));
+               ([], (TIdent, [120])); ([], (TColon, [58])); ([(false, [32])], (TIdent, [121])); ([], (TRightParenthesis, [41]));
+               ([], (TComma, [44])); ([], (TIdent, [112]))] in
+  let evs := [EAtRule [] [64; 105; 109; 112; 111; 114; 116] pre1 [] true;
+              EBeginAtRule [] [64; 77; 69; 68; 73; 65] pre2 [];
+              EOpen false [([], (TIdent, [97]))] []; EDecl (mkDecl [] [98] [] [([], (TIdent, [99]))] [] true); EClose [];
+              EEndAtRule []] in
   css_lex [64; 105; 109; 112; 111; 114; 116; 32; 117; 114; 108; 40; 120; 41; 32; 115; 59;
            64; 77; 69; 68; 73; 65; 32; 40; 109; 58; 49; 112; 120; 41; 32; 97; 110; 100; 32; 40; 120; 58; 32; 121; 41; 44; 112; 123;
-           97; 123; 98; 58; 99; 59; 125; 125] = LexDone (concat (map ev_toks evs) ++ optws None) /\
+           97; 123; 98; 58; 99; 59; 125; 125] = LexDone (concat (map ev_toks evs) ++ optws []) /\
   evs_ok [] evs /\
   map ev_unit evs =
     [(GAtRule, TAtKeyword, [64; 105; 109; 112; 111; 114; 116], [sp; (TURL, [117; 114; 108; 40; 120; 41]); sp; (TIdent, [115])]);
@@ -1871,21 +1976,21 @@ Example wellformed_example_at :
      (GEndRuleset, TRightBrace, [125], []); (GEndAtRule, TRightBrace, [125], [])].
 Proof.
   cbv zeta. split; [vm_compute; reflexivity|]. split; [|vm_compute; reflexivity].
-  repeat (first [discriminate | reflexivity | lia | left; exact I | split | exact I | vm_compute; reflexivity]).
+  repeat (first [discriminate | reflexivity | lia | left; exact I | split | exact I | vm_compute; reflexivity | intros _ | intros ?]).
 Qed.
 
 (* "a{b:c}@font-face{d:e;f:g}h{--x: 1}k{@a z}" written the usual way: the last declaration of a block has no
    ';' - the '}' ends it and the next call reports the end of the block; @font-face and @page have a declaration block;
    an at-rule without ';' before the '}' *)
 Example wellformed_example_brace :
-  let evs := [EOpen [(None, (TIdent, [97]))] None; EDecl (mkDecl None [98] None [(None, (TIdent, [99]))] None false); EClose None;
-              EBeginAtRule None [64; 102; 111; 110; 116; 45; 102; 97; 99; 101] [] None;
-              EDecl (mkDecl None [100] None [(None, (TIdent, [101]))] None true);
-              EDecl (mkDecl None [102] None [(None, (TIdent, [103]))] None false); EEndAtRule None;
-              EOpen [(None, (TIdent, [104]))] None; ECustom None [45; 45; 120] None [(TWhitespace, [32]); (TNumber, [49])] false; EClose None;
-              EOpen [(None, (TIdent, [107]))] None; EAtRule None [64; 97] [(Some [32], (TIdent, [122]))] None false; EClose None] in
+  let evs := [EOpen false [([], (TIdent, [97]))] []; EDecl (mkDecl [] [98] [] [([], (TIdent, [99]))] [] false); EClose [];
+              EBeginAtRule [] [64; 102; 111; 110; 116; 45; 102; 97; 99; 101] [] [];
+              EDecl (mkDecl [] [100] [] [([], (TIdent, [101]))] [] true);
+              EDecl (mkDecl [] [102] [] [([], (TIdent, [103]))] [] false); EEndAtRule [];
+              EOpen false [([], (TIdent, [104]))] []; ECustom [] [45; 45; 120] [] [(TWhitespace, [32]); (TNumber, [49])] false; EClose [];
+              EOpen false [([], (TIdent, [107]))] []; EAtRule [] [64; 97] [([(false, [32])], (TIdent, [122]))] [] false; EClose []] in
   css_lex [97; 123; 98; 58; 99; 125; 64; 102; 111; 110; 116; 45; 102; 97; 99; 101; 123; 100; 58; 101; 59; 102; 58; 103; 125;
-           104; 123; 45; 45; 120; 58; 32; 49; 125; 107; 123; 64; 97; 32; 122; 125] = LexDone (concat (map ev_toks evs) ++ optws None) /\
+           104; 123; 45; 45; 120; 58; 32; 49; 125; 107; 123; 64; 97; 32; 122; 125] = LexDone (concat (map ev_toks evs) ++ optws []) /\
   evs_ok [] evs /\
   map ev_unit evs =
     [(GBeginRuleset, TWhitespace, [], [(TIdent, [97])]); (GDeclaration, TIdent, [98], [(TIdent, [99])]); (GEndRuleset, TRightBrace, [125], []);
@@ -1903,18 +2008,45 @@ Qed.
    is skipped, later whitespace is a token of its own; a '}' inside nested braces is a token, the one at level 0 ends
    the block *)
 Example wellformed_example_unknown :
-  let evs := [EBeginAtRule None [64; 102; 111; 111] [(Some [32], (TIdent, [120]))] None;
-              EUTok (Some [32]) TIdent [97]; EUTok None TWhitespace [32]; EUTok None TIdent [98]; EUTok None TSemicolon [59];
-              EUTok None TLeftBrace [123]; EUTok None TIdent [99]; EUTok None TRightBrace [125]; EEndAtRule None;
-              EOpen [(None, (TIdent, [100]))] None; EClose None] in
+  let evs := [EBeginAtRule [] [64; 102; 111; 111] [([(false, [32])], (TIdent, [120]))] [];
+              EUTok ([(false, [32])]) TIdent [97]; EUTok [] TWhitespace [32]; EUTok [] TIdent [98]; EUTok [] TSemicolon [59];
+              EUTok [] TLeftBrace [123]; EUTok [] TIdent [99]; EUTok [] TRightBrace [125]; EEndAtRule [];
+              EOpen false [([], (TIdent, [100]))] []; EClose []] in
   css_lex [64; 102; 111; 111; 32; 120; 123; 32; 97; 32; 98; 59; 123; 99; 125; 125; 100; 123; 125] =
-    LexDone (concat (map ev_toks evs) ++ optws None) /\
+    LexDone (concat (map ev_toks evs) ++ optws []) /\
   evs_ok [] evs /\
   map ev_unit evs =
     [(GBeginAtRule, TAtKeyword, [64; 102; 111; 111], [sp; (TIdent, [120])]);
      (GToken, TIdent, [97], []); (GToken, TWhitespace, [32], []); (GToken, TIdent, [98], []); (GToken, TSemicolon, [59], []);
      (GToken, TLeftBrace, [123], []); (GToken, TIdent, [99], []); (GToken, TRightBrace, [125], []); (GEndAtRule, TRightBrace, [125], []);
      (GBeginRuleset, TWhitespace, [], [(TIdent, [100])]); (GEndRuleset, TRightBrace, [125], [])].
+Proof.
+  cbv zeta. split; [vm_compute; reflexivity|]. split; [|vm_compute; reflexivity].
+  unfold evs_ok. cbn [evs_okm]. repeat (first [discriminate | reflexivity | lia | left; exact I | split | exact I | vm_compute; reflexivity | intros _ | intros ?]).
+Qed.
+
+(* "a{/*k*/b/*l*/:/*m*/c/*n*/d e/*o*/,f;x/**/y{}}g/**/h{}" : comments inside blocks are dropped; between two value tokens a
+   dropped comment gives a space like whitespace does (c " " d), not next to punctuation (e , f); the selector of a nested
+   ruleset, which parseDeclaration collects, gets the space too (x " " y) while a top-level selector does not (g h) -
+   finding wellformed-comment-space *)
+Example wellformed_example_comments :
+  let cm (c : Z) : ws_t := [(true, [47; 42; c; 42; 47])] in
+  let evs := [EOpen false [([], (TIdent, [97]))] [];
+              EDecl (mkDecl (cm 107) [98] (cm 108)
+                       [(cm 109, (TIdent, [99])); (cm 110, (TIdent, [100])); ([(false, [32])], (TIdent, [101])); (cm 111, (TComma, [44]));
+                        ([], (TIdent, [102]))] [] true);
+              EOpen true [([], (TIdent, [120])); ([(true, [47; 42; 42; 47])], (TIdent, [121]))] []; EClose []; EClose [];
+              EOpen false [([], (TIdent, [103])); ([(true, [47; 42; 42; 47])], (TIdent, [104]))] []; EClose []] in
+  css_lex [97; 123; 47; 42; 107; 42; 47; 98; 47; 42; 108; 42; 47; 58; 47; 42; 109; 42; 47; 99; 47; 42; 110; 42; 47; 100; 32; 101;
+           47; 42; 111; 42; 47; 44; 102; 59; 120; 47; 42; 42; 47; 121; 123; 125; 125; 103; 47; 42; 42; 47; 104; 123; 125] =
+    LexDone (concat (map ev_toks evs) ++ optws []) /\
+  evs_ok [] evs /\
+  map ev_unit evs =
+    [(GBeginRuleset, TWhitespace, [], [(TIdent, [97])]);
+     (GDeclaration, TIdent, [98], [(TIdent, [99]); sp; (TIdent, [100]); sp; (TIdent, [101]); (TComma, [44]); (TIdent, [102])]);
+     (GBeginRuleset, TWhitespace, [], [(TIdent, [120]); sp; (TIdent, [121])]); (GEndRuleset, TRightBrace, [125], []);
+     (GEndRuleset, TRightBrace, [125], []);
+     (GBeginRuleset, TWhitespace, [], [(TIdent, [103]); (TIdent, [104])]); (GEndRuleset, TRightBrace, [125], [])].
 Proof.
   cbv zeta. split; [vm_compute; reflexivity|]. split; [|vm_compute; reflexivity].
   unfold evs_ok. cbn [evs_okm]. repeat (first [discriminate | reflexivity | lia | left; exact I | split | exact I | vm_compute; reflexivity | intros _ | intros ?]).
